@@ -176,6 +176,72 @@ theorem C11_heap_fresh_disjoint (n : Nat) (s t : Store) (a b : Addr) (hc : Close
   have h2 := C11_heap_reach_closed n s b hc hb x hx'
   exact Nat.lt_irrefl _ (Nat.lt_of_lt_of_le h2 h1)
 
+/-! ## a handle whose reachable cells all exist; arbitrary writes and allocations elsewhere -/
+
+/-- everything reachable from `x` in at most `n` steps is a cell of the store (true of every existing `x` in a closed store) -/
+def Valid (n : Nat) (s : Store) (x : Addr) : Prop := ∀ y ∈ reachN n s x, y < s.length
+
+private theorem valid_kid {n : Nat} {s : Store} {a r : Addr} {c : Cell} (hv : Valid (n + 1) s a) (hc : s[a]? = some c)
+    (hr : r ∈ c.kids) : Valid n s r := by
+  intro y hy
+  apply hv y
+  simp only [reachN, hc, List.mem_cons, List.mem_flatMap]
+  exact Or.inr ⟨r, hr, hy⟩
+
+/-- ALLOCATION keeps the view and the reachable set of every handle whose reachable cells exist (no `Closed` needed) -/
+theorem C11_heap_alloc_valid (n : Nat) (s t : Store) (a : Addr) (hv : Valid n s a) :
+    viewN n (s ++ t) a = viewN n s a ∧ reachN n (s ++ t) a = reachN n s a := by
+  induction n generalizing a with
+  | zero => exact ⟨rfl, rfl⟩
+  | succ n ih =>
+    have ha : a < s.length := hv a (by simp [reachN])
+    have hget : (s ++ t)[a]? = s[a]? := List.getElem?_append_left ha
+    simp only [viewN, reachN, hget]
+    cases hcell : s[a]? with
+    | none => exact ⟨rfl, rfl⟩
+    | some cell =>
+      simp only
+      refine ⟨?_, ?_⟩
+      · congr 1
+        apply flatMap_congr'
+        intro o ho
+        cases o with
+        | none => rfl
+        | some r => exact (ih r (valid_kid hv hcell (mem_kids.mpr ho))).1
+      · congr 1
+        apply flatMap_congr'
+        intro r hr
+        exact (ih r (valid_kid hv hcell hr)).2
+
+/-- `s'` is `s` after finitely many steps, each either an ARBITRARY overwrite of a cell in `W` or an allocation -/
+inductive Steps (W : List Addr) : Store → Store → Prop
+  | refl (s : Store) : Steps W s s
+  | write {s s1 : Store} (a : Addr) (c : Cell) : Steps W s s1 → a ∈ W → Steps W s (s1.set a c)
+  | alloc {s s1 : Store} (t : Store) : Steps W s s1 → Steps W s (s1 ++ t)
+
+/-- FRAME for whole calls: if a call only overwrites cells in `W` and allocates, every handle `x` whose reachable
+    cells exist and avoid `W` shows the same view and reaches the same cells afterwards — whatever is written -/
+theorem C11_heap_steps_frame {W : List Addr} {s s' : Store} (h : Steps W s s') (n : Nat) (x : Addr) (hv : Valid n s x)
+    (hw : ∀ a ∈ W, a ∉ reachN n s x) :
+    viewN n s' x = viewN n s x ∧ reachN n s' x = reachN n s x ∧ s.length ≤ s'.length := by
+  induction h with
+  | refl => exact ⟨rfl, rfl, Nat.le_refl _⟩
+  | @write s1 a c _ ha ih =>
+    obtain ⟨iv, ir, il⟩ := ih
+    have hna : a ∉ reachN n s1 x := by rw [ir]; exact hw a ha
+    exact ⟨by rw [C11_heap_frame n s1 x a c hna, iv], by rw [C11_heap_frame_reach n s1 x a c hna, ir], by simpa using il⟩
+  | @alloc s1 t _ ih =>
+    obtain ⟨iv, ir, il⟩ := ih
+    have hv1 : Valid n s1 x := fun y hy => Nat.lt_of_lt_of_le (hv y (by rw [← ir]; exact hy)) il
+    obtain ⟨av, ar⟩ := C11_heap_alloc_valid n s1 t x hv1
+    exact ⟨by rw [av, iv], by rw [ar, ir], by rw [List.length_append]; exact Nat.le_trans il (Nat.le_add_right _ _)⟩
+
+private theorem Steps.trans {W : List Addr} {s s' s'' : Store} (h1 : Steps W s s') (h2 : Steps W s' s'') : Steps W s s'' := by
+  induction h2 with
+  | refl => exact h1
+  | write a c _ ha ih => exact .write a c ih ha
+  | alloc t _ ih => exact .alloc t ih
+
 /-! ## library calls that only allocate -/
 
 /-- the call leaves every existing cell as it was: the store afterwards is the store before plus new cells -/
@@ -328,15 +394,6 @@ theorem C02_heap_from_composite_inputs_untouched (hdr sec : Addr) (n : Nat) :
     InputsUntouched (tcFromCompositeFields hdr sec n) := by
   apply C11_heap_allocOnly_inputs_untouched
   unfold tcFromCompositeFields; alloc_ops
-
-/-- `to_space_packet()` of a telecommand / a telemetry packet modifies nothing the caller holds (the packet included) -/
-theorem C02_heap_to_space_packet_inputs_untouched (p : Addr) :
-    InputsUntouched (tcToSpacePacket p) ∧ InputsUntouched (tmToSpacePacket p) := by
-  constructor <;> apply C11_heap_allocOnly_inputs_untouched
-  · unfold tcToSpacePacket
-    repeat' (first | exact alloc_deepCopyHeader _ | exact alloc_new _ | exact alloc_ref _ _ | exact alloc_scalAt _ _ | intro _ | apply alloc_bind)
-  · unfold tmToSpacePacket
-    repeat' (first | exact alloc_deepCopyHeader _ | exact alloc_new _ | exact alloc_ref _ _ | exact alloc_scalAt _ _ | intro _ | apply alloc_bind)
 
 /-- `RequestId.from_sp_header(header)` / `RequestId.from_pus_tc(tc)` modify neither header nor telecommand -/
 theorem C15_heap_request_id_inputs_untouched (x : Addr) :
@@ -493,11 +550,12 @@ private theorem leaf_kids {s : Store} {a : Addr} {c : Cell} (hl : Leaf s a) (hc 
 private theorem kid_of_ref {c : Cell} {i : Nat} {r : Addr} (h : c.refs[i]? = some (some r)) : r ∈ c.kids :=
   mem_kids.mpr (List.mem_of_getElem? h)
 
-/-- SEPARATION (since 840b2f2): the request ID taken from a header has no cell in common with ANY object that existed
-    before the call — the header, the telecommand, other request IDs of the same telecommand -/
-theorem C15_heap_reqid_separated (s : Store) (hc : Closed s) (hdr : Addr) (hl : KidsAreLeaves s hdr)
-    (rid : Addr) (s' : Store) (h : (reqIdFromSpHeader hdr).run s = some (rid, s')) (b : Addr) (hb : b < s.length) :
-    Disjoint (reach s' rid) (reach s' b) := by
+/-- what `RequestId.from_sp_header` builds, exactly: copies of the two cells the header holds, and the request-ID cell -/
+private theorem reqIdFromSpHeader_shape (s : Store) (hdr rid : Addr) (s' : Store)
+    (h : (reqIdFromSpHeader hdr).run s = some (rid, s')) :
+    ∃ ch pid psc cp cq ver, s[hdr]? = some ch ∧ ch.refs[0]? = some (some pid) ∧ ch.refs[1]? = some (some psc) ∧
+      ch.scal[0]? = some ver ∧ s[pid]? = some cp ∧ (s ++ [cp])[psc]? = some cq ∧ rid = s.length + 2 ∧
+      s' = s ++ [cp, cq, ⟨.requestId, [some s.length, some (s.length + 1)], [ver]⟩] := by
   unfold reqIdFromSpHeader at h
   obtain ⟨pid, s1, h1, h2⟩ := (run_bind_some _ _ _ _ _).mp h
   obtain ⟨⟨ch, hch, hpid⟩, e1⟩ := (ref_run _ _ _ _ _).mp h1
@@ -508,8 +566,10 @@ theorem C15_heap_reqid_separated (s : Store) (hc : Closed s) (hdr : Addr) (hl : 
   have e3 : ch' = ch := by rw [hch] at hch'; exact (Option.some.inj hch').symm
   subst e3
   obtain ⟨ver, s3, h5, h6⟩ := (run_bind_some _ _ _ _ _).mp h4
-  obtain ⟨_, e4⟩ := (scalAt_run _ _ _ _ _).mp h5
+  obtain ⟨⟨ch'', hch'', hver⟩, e4⟩ := (scalAt_run _ _ _ _ _).mp h5
   subst s3
+  have e5 : ch'' = ch' := by rw [hch] at hch''; exact (Option.some.inj hch'').symm
+  subst e5
   obtain ⟨pid', s4, h7, h8⟩ := (run_bind_some _ _ _ _ _).mp h6
   obtain ⟨cp, hcp, e5, e6⟩ := (copyCell_run _ _ _ _).mp h7
   subst pid' s4
@@ -518,15 +578,19 @@ theorem C15_heap_reqid_separated (s : Store) (hc : Closed s) (hdr : Addr) (hl : 
   subst psc' s5
   obtain ⟨e9, e10⟩ := (new_run _ _ _ _).mp h10
   subst rid s'
-  have hpl : pid < s.length := closed_kid_lt hc hch (kid_of_ref hpid)
+  exact ⟨ch'', pid, psc, cp, cq, ver, hch, hpid, hpsc, hver, hcp, hcq, by simp, by simp⟩
+
+/-- SEPARATION (since 840b2f2), to every depth `n`: the request ID taken from a header has no cell in common with ANY
+    object that existed before the call — the header, the telecommand, other request IDs of the same telecommand -/
+theorem C15_heap_reqid_separated (n : Nat) (s : Store) (hc : Closed s) (hdr : Addr) (hl : KidsAreLeaves s hdr)
+    (rid : Addr) (s' : Store) (h : (reqIdFromSpHeader hdr).run s = some (rid, s')) (b : Addr) (hb : b < s.length) :
+    Disjoint (reachN n s' rid) (reachN n s' b) := by
+  obtain ⟨ch, pid, psc, cp, cq, ver, hch, hpid, hpsc, _, hcp, hcq, rfl, rfl⟩ := reqIdFromSpHeader_shape s hdr rid s' h
   have hql : psc < s.length := closed_kid_lt hc hch (kid_of_ref hpsc)
   rw [List.getElem?_append_left hql] at hcq
   have hkp : cp.kids = [] := leaf_kids (hl pid (by simp [hch, kid_of_ref hpid])) hcp
   have hkq : cq.kids = [] := leaf_kids (hl psc (by simp [hch, kid_of_ref hpsc])) hcq
-  have hs : s ++ [cp] ++ [cq] ++ [⟨.requestId, [some s.length, some (s ++ [cp]).length], [ver]⟩]
-      = s ++ [cp, cq, ⟨.requestId, [some s.length, some (s.length + 1)], [ver]⟩] := by simp
-  rw [hs]
-  apply C11_heap_fresh_disjoint depth s _ _ b hc hb
+  apply C11_heap_fresh_disjoint n s _ _ b hc hb
   · intro c hcm r hr
     simp only [List.mem_cons, List.not_mem_nil, or_false] at hcm
     rcases hcm with rfl | rfl | rfl
@@ -534,6 +598,20 @@ theorem C15_heap_reqid_separated (s : Store) (hc : Closed s) (hdr : Addr) (hl : 
     · simp [hkq] at hr
     · simp [Cell.kids] at hr; rcases hr with rfl | rfl <;> simp
   · simp
+
+/-- the VALUE half of "snapshot": the request ID's `tc_packet_id` / `tc_psc` are cells EQUAL to the header's `PacketId` /
+    `PacketSeqCtrl` cells at the time of the call (tag and every scalar), and its version is the header's version — a
+    factory returning `RequestId.empty()`-like fresh cells does not satisfy this -/
+theorem C15_heap_reqid_snapshot_values (s : Store) (hc : Closed s) (hdr rid : Addr) (s' : Store)
+    (h : (reqIdFromSpHeader hdr).run s = some (rid, s')) :
+    ∃ ch pid psc a b ver, s[hdr]? = some ch ∧ ch.refs[0]? = some (some pid) ∧ ch.refs[1]? = some (some psc) ∧
+      ch.scal[0]? = some ver ∧ s'[rid]? = some ⟨.requestId, [some a, some b], [ver]⟩ ∧
+      s'[a]? = s[pid]? ∧ s'[b]? = s[psc]? ∧ s'[a]?.isSome ∧ s'[b]?.isSome := by
+  obtain ⟨ch, pid, psc, cp, cq, ver, hch, hpid, hpsc, hver, hcp, hcq, rfl, rfl⟩ := reqIdFromSpHeader_shape s hdr rid s' h
+  have hql : psc < s.length := closed_kid_lt hc hch (kid_of_ref hpsc)
+  rw [List.getElem?_append_left hql] at hcq
+  refine ⟨ch, pid, psc, s.length, s.length + 1, ver, hch, hpid, hpsc, hver, ?_, ?_, ?_, ?_, ?_⟩ <;>
+    simp [List.getElem?_append_right, hcp, hcq]
 
 /-! ### scalar writes inside one object graph are invisible from a disjoint one — for every sequence of setter calls -/
 
@@ -592,10 +670,37 @@ private theorem scalSteps_setScal {R : List Addr} {s s0 s' : Store} {a : Addr} {
   obtain ⟨c, hc, rfl⟩ := (setScal_run _ _ _ _ _ _).mp h
   exact .snoc a c _ st ha hc
 
-/-- every documented telecommand setter is a sequence of scalar assignments inside the telecommand's own object graph -/
-theorem C02_heap_tc_setter_confined (s : Store) (tc : Addr) (op : TcOp) (u : Unit) (s' : Store)
-    (h : (tcSet tc op).run s = some (u, s')) : ScalSteps (reach s tc) s s' := by
-  have hself : tc ∈ reach s tc := mem_reachN_self _ _ _
+/-- GENERIC isolation, for ALL sequences of calls of a setter family `f` on one object `obj`: if every call of the family is
+    a sequence of scalar assignments inside `obj`'s own object graph (to depth `n`), then a handle `x` whose reachable
+    cells are disjoint from `obj`'s shows the same view and reaches the same cells after any sequence of calls -/
+theorem C11_heap_setters_frame {α : Type} (f : α → H Unit) (obj : Addr) (n : Nat)
+    (hconf : ∀ s op u s', (f op).run s = some (u, s') → ScalSteps (reachN n s obj) s s')
+    (s : Store) (x : Addr) (hd : Disjoint (reachN n s x) (reachN n s obj)) (ops : List α) :
+    viewN n (runOps f ops s) x = viewN n s x ∧ reachN n (runOps f ops s) x = reachN n s x := by
+  have key : ∀ (ops : List α) (s0 : Store), ScalSteps (reachN n s obj) s s0 →
+      ScalSteps (reachN n s obj) s (runOps f ops s0) := by
+    intro ops
+    induction ops with
+    | nil => intro s0 h; exact h
+    | cons o ops ih =>
+      intro s0 h
+      simp only [runOps, List.foldl_cons]
+      cases hrun : (f o).run s0 with
+      | none => exact ih s0 h
+      | some p =>
+        obtain ⟨u, s1⟩ := p
+        have st := hconf s0 o u s1 hrun
+        have e : reachN n s0 obj = reachN n s obj := h.reach_eq n obj
+        rw [e] at st
+        exact ih s1 (h.trans st)
+  have st := key ops s (.refl s)
+  exact ⟨st.view_eq n x (fun a ha hx => hd a hx ha), st.reach_eq n x⟩
+
+/-- every documented telecommand setter is a sequence of scalar assignments inside the telecommand's own object graph
+    (cells at most 2 attribute steps from it) -/
+theorem C02_heap_tc_setter_confined (n : Nat) (s : Store) (tc : Addr) (op : TcOp) (u : Unit) (s' : Store)
+    (h : (tcSet tc op).run s = some (u, s')) : ScalSteps (reachN (n + 2) s tc) s s' := by
+  have hself : tc ∈ reachN (n + 2) s tc := mem_reachN_self _ _ _
   cases op with
   | seqCount v =>
     simp only [tcSet] at h
@@ -621,7 +726,7 @@ theorem C02_heap_tc_setter_confined (s : Store) (tc : Addr) (op : TcOp) (u : Uni
     obtain ⟨⟨ct, hct, hr⟩, e⟩ := (ref_run _ _ _ _ _).mp h1
     subst s1
     exact scalSteps_setScal (.refl s) (mem_reachN_step hct hr (mem_reachN_self _ _ _)) h2
-  | appData n =>
+  | appData m =>
     simp only [tcSet] at h
     obtain ⟨hd, s1, h1, h2⟩ := (run_bind_some _ _ _ _ _).mp h
     obtain ⟨⟨ct, hct, hr⟩, e⟩ := (ref_run _ _ _ _ _).mp h1
@@ -632,50 +737,85 @@ theorem C02_heap_tc_setter_confined (s : Store) (tc : Addr) (op : TcOp) (u : Uni
       have st1 := scalSteps_setScal (.refl s) hself h3
       exact scalSteps_setScal st1 (mem_reachN_step hct hr (mem_reachN_self _ _ _)) h4
 
-/-- ISOLATION, for ALL sequences of setter calls: an object whose reachable cells are disjoint from the telecommand's
-    shows the same view (and reaches the same cells) after any number of `seq_count` / `apid` / `source_id` / `app_data`
-    assignments on the telecommand, refused calls included -/
-theorem C02_heap_tc_setters_frame (s : Store) (tc x : Addr) (hd : Disjoint (reach s x) (reach s tc)) (ops : List TcOp) :
-    view (runOps (tcSet tc) ops s) x = view s x ∧ reach (runOps (tcSet tc) ops s) x = reach s x := by
-  have key : ∀ (ops : List TcOp) (s0 : Store), ScalSteps (reach s tc) s s0 →
-      ScalSteps (reach s tc) s (runOps (tcSet tc) ops s0) := by
-    intro ops
-    induction ops with
-    | nil => intro s0 h; exact h
-    | cons o ops ih =>
-      intro s0 h
-      simp only [runOps, List.foldl_cons]
-      cases hrun : (tcSet tc o).run s0 with
-      | none => exact ih s0 h
-      | some p =>
-        obtain ⟨u, s1⟩ := p
-        have st := C02_heap_tc_setter_confined s0 tc o u s1 hrun
-        have e : reach s0 tc = reach s tc := h.reach_eq depth tc
-        rw [e] at st
-        exact ih s1 (h.trans st)
-  have st := key ops s (.refl s)
-  exact ⟨st.view_eq depth x (fun a ha hx => hd a hx ha), st.reach_eq depth x⟩
+/-- the same for the documented setters of a telemetry packet (`apid`, `seq_flags`, `tm_data`) -/
+theorem C02_heap_tm_setter_confined (n : Nat) (s : Store) (tm : Addr) (op : TmOp) (u : Unit) (s' : Store)
+    (h : (tmSet tm op).run s = some (u, s')) : ScalSteps (reachN (n + 2) s tm) s s' := by
+  have hself : tm ∈ reachN (n + 2) s tm := mem_reachN_self _ _ _
+  cases op with
+  | apid v =>
+    simp only [tmSet] at h
+    obtain ⟨hd, s1, h1, h2⟩ := (run_bind_some _ _ _ _ _).mp h
+    obtain ⟨⟨ct, hct, hr⟩, e⟩ := (ref_run _ _ _ _ _).mp h1
+    subst s1
+    obtain ⟨pid, s2, h3, h4⟩ := (run_bind_some _ _ _ _ _).mp h2
+    obtain ⟨⟨ch, hch, hr2⟩, e⟩ := (ref_run _ _ _ _ _).mp h3
+    subst s2
+    exact scalSteps_setScal (.refl s) (mem_reachN_step hct hr (mem_reachN_step hch hr2 (mem_reachN_self _ _ _))) h4
+  | seqFlags v =>
+    simp only [tmSet] at h
+    obtain ⟨hd, s1, h1, h2⟩ := (run_bind_some _ _ _ _ _).mp h
+    obtain ⟨⟨ct, hct, hr⟩, e⟩ := (ref_run _ _ _ _ _).mp h1
+    subst s1
+    obtain ⟨psc, s2, h3, h4⟩ := (run_bind_some _ _ _ _ _).mp h2
+    obtain ⟨⟨ch, hch, hr2⟩, e⟩ := (ref_run _ _ _ _ _).mp h3
+    subst s2
+    exact scalSteps_setScal (.refl s) (mem_reachN_step hct hr (mem_reachN_step hch hr2 (mem_reachN_self _ _ _))) h4
+  | tmData m =>
+    simp only [tmSet] at h
+    obtain ⟨hd, s1, h1, h2⟩ := (run_bind_some _ _ _ _ _).mp h
+    obtain ⟨⟨ct, hct, hr⟩, e⟩ := (ref_run _ _ _ _ _).mp h1
+    subst s1
+    obtain ⟨sec, s2, h3, h4⟩ := (run_bind_some _ _ _ _ _).mp h2
+    obtain ⟨_, e⟩ := (ref_run _ _ _ _ _).mp h3
+    subst s2
+    obtain ⟨ts, s3, h5, h6⟩ := (run_bind_some _ _ _ _ _).mp h4
+    obtain ⟨_, e⟩ := (scalAt_run _ _ _ _ _).mp h5
+    subst s3
+    split at h6
+    · exact ((fail_run _ _ _).mp h6).elim
+    · obtain ⟨u1, s4, h7, h8⟩ := (run_bind_some _ _ _ _ _).mp h6
+      have st1 := scalSteps_setScal (.refl s) hself h7
+      exact scalSteps_setScal st1 (mem_reachN_step hct hr (mem_reachN_self _ _ _)) h8
+
+/-- ISOLATION, for ALL sequences of setter calls and EVERY depth `n + 2`: an object whose reachable cells are disjoint
+    from the telecommand's shows the same view (and reaches the same cells) after any number of `seq_count` / `apid` /
+    `source_id` / `app_data` assignments on the telecommand, refused calls included (`view`, `reach` are the case `n = 6`) -/
+theorem C02_heap_tc_setters_frame (n : Nat) (s : Store) (tc x : Addr)
+    (hd : Disjoint (reachN (n + 2) s x) (reachN (n + 2) s tc)) (ops : List TcOp) :
+    viewN (n + 2) (runOps (tcSet tc) ops s) x = viewN (n + 2) s x ∧
+    reachN (n + 2) (runOps (tcSet tc) ops s) x = reachN (n + 2) s x :=
+  C11_heap_setters_frame (tcSet tc) tc (n + 2) (fun s op u s' h => C02_heap_tc_setter_confined n s tc op u s' h) s x hd ops
+
+/-- … and after any number of `apid` / `seq_flags` / `tm_data` assignments on a telemetry packet -/
+theorem C02_heap_tm_setters_frame (n : Nat) (s : Store) (tm x : Addr)
+    (hd : Disjoint (reachN (n + 2) s x) (reachN (n + 2) s tm)) (ops : List TmOp) :
+    viewN (n + 2) (runOps (tmSet tm) ops s) x = viewN (n + 2) s x ∧
+    reachN (n + 2) (runOps (tmSet tm) ops s) x = reachN (n + 2) s x :=
+  C11_heap_setters_frame (tmSet tm) tm (n + 2) (fun s op u s' h => C02_heap_tm_setter_confined n s tm op u s' h) s x hd ops
 
 /-- the header a telecommand / telemetry / space-packet object holds (first object attribute) -/
 def headerOf (s : Store) (p : Addr) : Option Addr := (s[p]?.bind fun c => c.refs[0]?).join
 
-/-- C15, all histories: the request ID taken from a telecommand (`RequestId.from_pus_tc`) is a SNAPSHOT — no sequence of
-    setter calls on the telecommand afterwards changes anything readable through the request ID -/
-theorem C15_heap_reqid_isolated (s : Store) (hc : Closed s) (tc : Addr) (htc : tc < s.length)
+/-- C15, all histories, every depth: the request ID taken from a telecommand (`RequestId.from_pus_tc`) is a SNAPSHOT — no
+    sequence of setter calls on the telecommand afterwards changes anything readable through the request ID -/
+theorem C15_heap_reqid_isolated (n : Nat) (s : Store) (hc : Closed s) (tc : Addr) (htc : tc < s.length)
     (hl : ∀ hdr, headerOf s tc = some hdr → KidsAreLeaves s hdr)
     (rid : Addr) (s' : Store) (h : (reqIdFromPusTc tc).run s = some (rid, s')) (ops : List TcOp) :
-    Disjoint (reach s' rid) (reach s' tc) ∧ view (runOps (tcSet tc) ops s') rid = view s' rid := by
+    Disjoint (reachN (n + 2) s' rid) (reachN (n + 2) s' tc) ∧
+    viewN (n + 2) (runOps (tcSet tc) ops s') rid = viewN (n + 2) s' rid := by
   unfold reqIdFromPusTc at h
   obtain ⟨hdr, s1, h1, h2⟩ := (run_bind_some _ _ _ _ _).mp h
   obtain ⟨⟨ct, hct, hr⟩, e⟩ := (ref_run _ _ _ _ _).mp h1
   subst s1
-  have hsep := C15_heap_reqid_separated s hc hdr (hl hdr (by simp [headerOf, hct, hr])) rid s' h2 tc htc
-  exact ⟨hsep, (C02_heap_tc_setters_frame s' tc rid hsep ops).1⟩
+  have hsep := C15_heap_reqid_separated (n + 2) s hc hdr (hl hdr (by simp [headerOf, hct, hr])) rid s' h2 tc htc
+  exact ⟨hsep, (C02_heap_tc_setters_frame n s' tc rid hsep ops).1⟩
 
-/-- SEPARATION (since b7949db): the header `copy.deepcopy` makes has no cell in common with any object that existed -/
-private theorem deepCopyHeader_separated (s : Store) (hc : Closed s) (hdr : Addr) (hl : KidsAreLeaves s hdr)
-    (h' : Addr) (s' : Store) (h : (deepCopyHeader hdr).run s = some (h', s')) :
-    ∃ t, s' = s ++ t ∧ (∀ c ∈ t, ∀ r ∈ c.kids, s.length ≤ r) ∧ s.length ≤ h' := by
+/-- what `copy.deepcopy(header)` builds, exactly -/
+private theorem deepCopyHeader_shape (s : Store) (hdr h' : Addr) (s' : Store)
+    (h : (deepCopyHeader hdr).run s = some (h', s')) :
+    ∃ ch pid psc cp cq, s[hdr]? = some ch ∧ ch.refs[0]? = some (some pid) ∧ ch.refs[1]? = some (some psc) ∧
+      s[pid]? = some cp ∧ (s ++ [cp])[psc]? = some cq ∧ h' = s.length + 2 ∧
+      s' = s ++ [cp, cq, { ch with refs := [some s.length, some (s.length + 1)] }] := by
   unfold deepCopyHeader at h
   obtain ⟨ch, s0, h0, h01⟩ := (run_bind_some _ _ _ _ _).mp h
   obtain ⟨hch, e⟩ := (cellAt_run _ _ _ _).mp h0
@@ -697,52 +837,183 @@ private theorem deepCopyHeader_separated (s : Store) (hc : Closed s) (hdr : Addr
   subst psc' s5
   obtain ⟨e9, e10⟩ := (new_run _ _ _ _).mp h10
   subst h' s'
-  have hql : psc < s.length := closed_kid_lt hc hch (kid_of_ref hpsc)
-  rw [List.getElem?_append_left hql] at hcq
-  have hkp : cp.kids = [] := leaf_kids (hl pid (by simp [hch, kid_of_ref hpid])) hcp
-  have hkq : cq.kids = [] := leaf_kids (hl psc (by simp [hch, kid_of_ref hpsc])) hcq
-  refine ⟨[cp, cq, { ch2 with refs := [some s.length, some (s.length + 1)] }], by simp, ?_, by simp⟩
-  intro c hcm r hr
-  simp only [List.mem_cons, List.not_mem_nil, or_false] at hcm
-  rcases hcm with rfl | rfl | rfl
-  · simp [hkp] at hr
-  · simp [hkq] at hr
-  · simp [Cell.kids] at hr; rcases hr with rfl | rfl <;> simp
+  exact ⟨ch2, pid, psc, cp, cq, hch, hpid, hpsc, hcp, hcq, by simp, by simp⟩
 
-/-- C02, all histories: the generic space-packet view of a telecommand (`to_space_packet()`) has no cell in common with
-    any object that existed before — in particular not with the telecommand — and no sequence of setter calls on the
-    telecommand afterwards changes anything readable through it -/
-theorem C02_heap_space_packet_isolated (s : Store) (hc : Closed s) (tc : Addr) (htc : tc < s.length)
-    (hl : ∀ hdr, headerOf s tc = some hdr → KidsAreLeaves s hdr)
-    (sp : Addr) (s' : Store) (h : (tcToSpacePacket tc).run s = some (sp, s')) (ops : List TcOp) :
-    (∀ b, b < s.length → Disjoint (reach s' sp) (reach s' b)) ∧ view (runOps (tcSet tc) ops s') sp = view s' sp := by
-  unfold tcToSpacePacket at h
+private theorem closed_set_same_refs {s : Store} (hc : Closed s) {a : Addr} {c c' : Cell} (h : s[a]? = some c)
+    (hr : c'.refs = c.refs) : Closed (s.set a c') := by
+  intro x hx r hrk
+  rw [List.length_set]
+  rcases List.mem_or_eq_of_mem_set hx with hm | rfl
+  · exact hc x hm r hrk
+  · exact hc c (List.mem_of_getElem? h) r (by simpa [Cell.kids, hr] using hrk)
+
+private theorem kidsAreLeaves_set_same_refs {s : Store} {a hdr : Addr} {c c' : Cell} (h : s[a]? = some c)
+    (hr : c'.refs = c.refs) (hl : KidsAreLeaves s hdr) : KidsAreLeaves (s.set a c') hdr := by
+  have key : ∀ x : Addr, ((s.set a c')[x]?.map Cell.kids) = (s[x]?.map Cell.kids) := by
+    intro x
+    by_cases hx : a = x
+    · subst hx
+      rw [List.getElem?_set_self (List.getElem?_eq_some_iff.mp h).1, h]
+      simp [Cell.kids, hr]
+    · rw [List.getElem?_set_ne hx]
+  intro r hrm
+  rw [key] at hrm
+  have := hl r hrm
+  simpa [Leaf, key] using this
+
+/-- the common core of `PusTc.to_space_packet()` / `PusTm.to_space_packet()` (both: read header and data length, assign
+    the own `crc16` cache, deep-copy the header, build the `SpacePacket`) -/
+private theorem toSpacePacket_shape (secLen : Nat) (p sp : Addr) (s s' : Store)
+    (h : (do
+        let hdr ← ref p 0
+        let n ← scalAt p 0
+        setScal p 1 1
+        let hdr' ← deepCopyHeader hdr
+        new ⟨.spacePacket, [some hdr'], [secLen, n + 2]⟩ : H Addr).run s = some (sp, s')) :
+    ∃ cp hdr n ch pid psc c1 c2, s[p]? = some cp ∧ cp.refs[0]? = some (some hdr) ∧ cp.scal[0]? = some n ∧
+      (s.set p { cp with scal := cp.scal.set 1 1 })[hdr]? = some ch ∧ ch.refs[0]? = some (some pid) ∧
+      ch.refs[1]? = some (some psc) ∧ (s.set p { cp with scal := cp.scal.set 1 1 })[pid]? = some c1 ∧
+      (s.set p { cp with scal := cp.scal.set 1 1 } ++ [c1])[psc]? = some c2 ∧ sp = s.length + 3 ∧
+      s' = s.set p { cp with scal := cp.scal.set 1 1 } ++
+        [c1, c2, { ch with refs := [some s.length, some (s.length + 1)] }, ⟨.spacePacket, [some (s.length + 2)], [secLen, n + 2]⟩] := by
   obtain ⟨hdr, s1, h1, h2⟩ := (run_bind_some _ _ _ _ _).mp h
-  obtain ⟨⟨ct, hct, hr⟩, e⟩ := (ref_run _ _ _ _ _).mp h1
+  obtain ⟨⟨cp, hcp, hr⟩, e⟩ := (ref_run _ _ _ _ _).mp h1
   subst s1
   obtain ⟨n, s2, h3, h4⟩ := (run_bind_some _ _ _ _ _).mp h2
-  obtain ⟨_, e⟩ := (scalAt_run _ _ _ _ _).mp h3
+  obtain ⟨⟨cp', hcp', hn⟩, e⟩ := (scalAt_run _ _ _ _ _).mp h3
   subst s2
-  obtain ⟨hdr', s3, h5, h6⟩ := (run_bind_some _ _ _ _ _).mp h4
-  obtain ⟨t, e, ht, hh⟩ := deepCopyHeader_separated s hc hdr (hl hdr (by simp [headerOf, hct, hr])) hdr' s3 h5
-  subst s3
-  obtain ⟨e1, e2⟩ := (new_run _ _ _ _).mp h6
+  have e1 : cp' = cp := by rw [hcp] at hcp'; exact (Option.some.inj hcp').symm
+  subst e1
+  obtain ⟨u, s3, h5, h6⟩ := (run_bind_some _ _ _ _ _).mp h4
+  obtain ⟨cp'', hcp'', e⟩ := (setScal_run _ _ _ _ _ _).mp h5
+  have e2 : cp'' = cp' := by rw [hcp] at hcp''; exact (Option.some.inj hcp'').symm
+  subst e2 s3
+  obtain ⟨hdr', s4, h7, h8⟩ := (run_bind_some _ _ _ _ _).mp h6
+  obtain ⟨ch, pid, psc, c1, c2, hch, hpid, hpsc, hc1, hc2, e3, e4⟩ := deepCopyHeader_shape _ hdr hdr' s4 h7
+  subst hdr' s4
+  obtain ⟨e5, e6⟩ := (new_run _ _ _ _).mp h8
   subst sp s'
-  have hsep : ∀ b, b < s.length → Disjoint (reach (s ++ t ++ [⟨.spacePacket, [some hdr'], [5, n + 2]⟩]) (s ++ t).length)
-      (reach (s ++ t ++ [⟨.spacePacket, [some hdr'], [5, n + 2]⟩]) b) := by
-    intro b hb
-    rw [List.append_assoc]
-    apply C11_heap_fresh_disjoint depth s _ _ b hc hb
-    · intro c hcm r hr'
-      rcases List.mem_append.mp hcm with hm | hm
-      · exact ht c hm r hr'
-      · simp only [List.mem_cons, List.not_mem_nil, or_false] at hm
-        subst hm
-        simp [Cell.kids] at hr'
-        subst hr'
-        exact hh
-    · simp
-  exact ⟨hsep, (C02_heap_tc_setters_frame _ tc _ (hsep tc htc) ops).1⟩
+  refine ⟨cp'', hdr, n, ch, pid, psc, c1, c2, hcp, hr, hn, hch, hpid, hpsc, hc1, hc2, ?_, ?_⟩
+  · simp [List.length_set]
+  · simp [List.length_set]
+
+/-- what `to_space_packet()` does to the objects that existed, stated as it is (`calc_crc()` runs first): the ONLY
+    pre-existing cell that changes is the packet's own, and there only the `crc16` cache scalar (index 1: tag, header /
+    secondary-header references and the data length stay); every other pre-existing cell — header, `PacketId`,
+    `PacketSeqCtrl`, secondary header, every other object — is what it was; and every handle whose reachable cells exist and
+    do not include the packet shows the same view and reaches the same cells. Both for `PusTc` and `PusTm`. -/
+theorem C02_heap_to_space_packet_writes_only_crc (isTm : Bool) (p sp : Addr) (s s' : Store)
+    (h : (if isTm then tmToSpacePacket p else tcToSpacePacket p).run s = some (sp, s')) :
+    (∃ cp, s[p]? = some cp ∧ s'[p]? = some { cp with scal := cp.scal.set 1 1 }) ∧
+    (∀ a, a < s.length → a ≠ p → s'[a]? = s[a]?) ∧
+    (∀ n x, Valid n s x → p ∉ reachN n s x → viewN n s' x = viewN n s x ∧ reachN n s' x = reachN n s x) := by
+  have hsh : ∃ secLen, (do
+        let hdr ← ref p 0
+        let n ← scalAt p 0
+        setScal p 1 1
+        let hdr' ← deepCopyHeader hdr
+        new ⟨.spacePacket, [some hdr'], [secLen, n + 2]⟩ : H Addr).run s = some (sp, s') := by
+    cases isTm
+    · exact ⟨5, h⟩
+    · exact ⟨7, h⟩
+  obtain ⟨secLen, hsh⟩ := hsh
+  obtain ⟨cp, hdr, n, ch, pid, psc, c1, c2, hcp, _, _, _, _, _, _, _, _, rfl⟩ := toSpacePacket_shape secLen p sp s s' hsh
+  have hp : p < s.length := (List.getElem?_eq_some_iff.mp hcp).1
+  refine ⟨⟨cp, hcp, ?_⟩, ?_, ?_⟩
+  · rw [List.getElem?_append_left (by simpa using hp), List.getElem?_set_self hp]
+  · intro a ha hne
+    rw [List.getElem?_append_left (by simpa using ha), List.getElem?_set_ne (fun e => hne e.symm)]
+  · intro m x hv hx
+    have st : Steps [p] s (s.set p { cp with scal := cp.scal.set 1 1 } ++
+        [c1, c2, { ch with refs := [some s.length, some (s.length + 1)] }, ⟨.spacePacket, [some (s.length + 2)], [secLen, n + 2]⟩]) :=
+      .alloc _ (.write p _ (.refl s) (by simp))
+    obtain ⟨hv', hr', _⟩ := C11_heap_steps_frame st m x hv (by simpa using hx)
+    exact ⟨hv', hr'⟩
+
+private theorem toSpacePacket_separated (secLen : Nat) (p sp : Addr) (s s' : Store) (hc : Closed s)
+    (hl : ∀ hdr, headerOf s p = some hdr → KidsAreLeaves s hdr)
+    (h : (do
+        let hdr ← ref p 0
+        let n ← scalAt p 0
+        setScal p 1 1
+        let hdr' ← deepCopyHeader hdr
+        new ⟨.spacePacket, [some hdr'], [secLen, n + 2]⟩ : H Addr).run s = some (sp, s')) :
+    ∀ n b, b < s.length → Disjoint (reachN n s' sp) (reachN n s' b) := by
+  obtain ⟨cp, hdr, m, ch, pid, psc, c1, c2, hcp, hr, _, hch, hpid, hpsc, hc1, hc2, rfl, rfl⟩ := toSpacePacket_shape secLen p sp s s' h
+  intro n b hb
+  have hc1s := closed_set_same_refs hc hcp (c' := { cp with scal := cp.scal.set 1 1 }) rfl
+  have hl1 := kidsAreLeaves_set_same_refs hcp (c' := { cp with scal := cp.scal.set 1 1 }) rfl (hl hdr (by simp [headerOf, hcp, hr]))
+  have hql : psc < (s.set p { cp with scal := cp.scal.set 1 1 }).length := closed_kid_lt hc1s hch (kid_of_ref hpsc)
+  rw [List.getElem?_append_left hql] at hc2
+  have hk1 : c1.kids = [] := leaf_kids (hl1 pid (by simp [hch, kid_of_ref hpid])) hc1
+  have hk2 : c2.kids = [] := leaf_kids (hl1 psc (by simp [hch, kid_of_ref hpsc])) hc2
+  have hlen : (s.set p { cp with scal := cp.scal.set 1 1 }).length = s.length := List.length_set
+  have := C11_heap_fresh_disjoint n (s.set p { cp with scal := cp.scal.set 1 1 })
+    [c1, c2, { ch with refs := [some s.length, some (s.length + 1)] }, ⟨.spacePacket, [some (s.length + 2)], [secLen, m + 2]⟩]
+    (s.length + 3) b hc1s (by rw [hlen]; exact hb)
+    (by
+      intro c hcm r hrk
+      rw [hlen]
+      simp only [List.mem_cons, List.not_mem_nil, or_false] at hcm
+      rcases hcm with rfl | rfl | rfl | rfl
+      · simp [hk1] at hrk
+      · simp [hk2] at hrk
+      · simp [Cell.kids] at hrk; rcases hrk with rfl | rfl <;> simp
+      · simp [Cell.kids] at hrk; subst hrk; simp)
+    (by rw [hlen]; simp)
+  exact this
+
+/-- C02, all histories, every depth: the generic space-packet view of a telecommand (`to_space_packet()`) has no cell in
+    common with any object that existed before — in particular not with the telecommand — and no sequence of setter calls
+    on the telecommand afterwards changes anything readable through it -/
+theorem C02_heap_space_packet_isolated (n : Nat) (s : Store) (hc : Closed s) (tc : Addr) (htc : tc < s.length)
+    (hl : ∀ hdr, headerOf s tc = some hdr → KidsAreLeaves s hdr)
+    (sp : Addr) (s' : Store) (h : (tcToSpacePacket tc).run s = some (sp, s')) (ops : List TcOp) :
+    (∀ m b, b < s.length → Disjoint (reachN m s' sp) (reachN m s' b)) ∧
+    viewN (n + 2) (runOps (tcSet tc) ops s') sp = viewN (n + 2) s' sp := by
+  have hsep := toSpacePacket_separated 5 tc sp s s' hc hl h
+  exact ⟨hsep, (C02_heap_tc_setters_frame n s' tc sp (hsep (n + 2) tc htc) ops).1⟩
+
+/-- the same for a telemetry packet and its setters (`apid`, `seq_flags`, `tm_data`) -/
+theorem C02_heap_tm_space_packet_isolated (n : Nat) (s : Store) (hc : Closed s) (tm : Addr) (htm : tm < s.length)
+    (hl : ∀ hdr, headerOf s tm = some hdr → KidsAreLeaves s hdr)
+    (sp : Addr) (s' : Store) (h : (tmToSpacePacket tm).run s = some (sp, s')) (ops : List TmOp) :
+    (∀ m b, b < s.length → Disjoint (reachN m s' sp) (reachN m s' b)) ∧
+    viewN (n + 2) (runOps (tmSet tm) ops s') sp = viewN (n + 2) s' sp := by
+  have hsep := toSpacePacket_separated 7 tm sp s s' hc hl h
+  exact ⟨hsep, (C02_heap_tm_setters_frame n s' tm sp (hsep (n + 2) tm htm) ops).1⟩
+
+/-- the VALUE half: the space packet's header is a cell with the tag and scalars (version, data length) of the packet's
+    header at the time of the call, and its `PacketId` / `PacketSeqCtrl` are cells EQUAL to the header's — provided the
+    packet is not reachable from its own header (no cycle), so that the `crc16` assignment does not touch those cells -/
+theorem C02_heap_space_packet_snapshot_values (isTm : Bool) (p sp : Addr) (s s' : Store) (hc : Closed s)
+    (h : (if isTm then tmToSpacePacket p else tcToSpacePacket p).run s = some (sp, s'))
+    (hacyc : ∀ hdr, headerOf s p = some hdr → p ∉ reachN 1 s hdr) :
+    ∃ hdr ch pid psc h' a b, headerOf s p = some hdr ∧ s[hdr]? = some ch ∧ ch.refs[0]? = some (some pid) ∧
+      ch.refs[1]? = some (some psc) ∧ (s'[sp]?.map Cell.refs) = some [some h'] ∧
+      s'[h']? = some { ch with refs := [some a, some b] } ∧ s'[a]? = s[pid]? ∧ s'[b]? = s[psc]? ∧ s'[a]?.isSome ∧ s'[b]?.isSome := by
+  have hsh : ∃ secLen, (do
+        let hdr ← ref p 0
+        let n ← scalAt p 0
+        setScal p 1 1
+        let hdr' ← deepCopyHeader hdr
+        new ⟨.spacePacket, [some hdr'], [secLen, n + 2]⟩ : H Addr).run s = some (sp, s') := by
+    cases isTm
+    · exact ⟨5, h⟩
+    · exact ⟨7, h⟩
+  obtain ⟨secLen, hsh⟩ := hsh
+  obtain ⟨cp, hdr, n, ch, pid, psc, c1, c2, hcp, hr, _, hch, hpid, hpsc, hc1, hc2, rfl, rfl⟩ := toSpacePacket_shape secLen p sp s s' hsh
+  have hho : headerOf s p = some hdr := by simp [headerOf, hcp, hr]
+  have hnot := hacyc hdr hho
+  have hne1 : p ≠ hdr := fun e => hnot (by rw [e]; exact mem_reachN_self _ _ _)
+  rw [List.getElem?_set_ne hne1] at hch
+  have hne2 : p ≠ pid := fun e => hnot (by rw [e]; exact mem_reachN_step hch hpid (mem_reachN_self _ _ _))
+  have hne3 : p ≠ psc := fun e => hnot (by rw [e]; exact mem_reachN_step hch hpsc (mem_reachN_self _ _ _))
+  rw [List.getElem?_set_ne hne2] at hc1
+  have hpscl : psc < s.length := closed_kid_lt hc hch (kid_of_ref hpsc)
+  rw [List.getElem?_append_left (by rw [List.length_set]; exact hpscl), List.getElem?_set_ne hne3] at hc2
+  refine ⟨hdr, ch, pid, psc, s.length + 2, s.length, s.length + 1, hho, hch, hpid, hpsc, ?_, ?_, ?_, ?_, ?_, ?_⟩ <;>
+    simp [List.getElem?_append_right, List.length_set, hc1, hc2]
 
 private theorem new_run_eq (c : Cell) (s : Store) : (new c).run s = some (s.length, s ++ [c]) := rfl
 
@@ -790,16 +1061,16 @@ theorem C11_heap_factory_results_separated (s : Store) (hc : Closed s) (which : 
 
 /-! ## (d) where the code SHARES — stated as it is -/
 
-/-- the exact alias relation after a CFDP PDU constructor (all eight kinds): the PDU's configuration is a NEW cell (not the
-    caller's), it holds the caller's three byte-field objects (the same addresses: `copy.copy` is shallow), its scalars are
-    the caller's except the direction of the kind, the new header refers to it, and the caller's cell is unchanged -/
-theorem C11_heap_conf_bytefields_shared (k : PduKind) (conf : Addr) (objs : List (Option Addr)) (scal : List Nat) (af : Bool)
+/-- what the common body of the eight CFDP PDU constructors builds, exactly -/
+private theorem newPdu_shape (k : PduKind) (conf : Addr) (objs : List (Option Addr)) (scal : List Nat) (af : Bool)
     (fl dl : Nat) (s : Store) (cc : Cell) (hcc : s[conf]? = some cc) (pdu : Addr) (s' : Store)
     (h : (newPdu k conf objs scal af fl dl).run s = some (pdu, s')) :
-    s'[s.length]? = some { cc with scal := cc.scal.set 3 (k.dir af) } ∧ s.length ≠ conf ∧ s'[conf]? = some cc ∧
-    (∃ hs, s'[s.length + 1]? = some ⟨.pduHeader, [some s.length], hs⟩) := by
-  have hlt : conf < s.length := (List.getElem?_eq_some_iff.mp hcc).1
-  have hne : s.length ≠ conf := fun e => by rw [e] at hlt; exact Nat.lt_irrefl _ hlt
+    (k = .fileData ∧ pdu = s.length + 2 ∧
+      s' = s ++ [{ cc with scal := cc.scal.set 3 (k.dir af) }, ⟨.pduHeader, [some s.length], [1, fl, dl]⟩,
+                 ⟨k.tag, some (s.length + 1) :: objs, scal⟩]) ∨
+    (k ≠ .fileData ∧ pdu = s.length + 3 ∧
+      s' = s ++ [{ cc with scal := cc.scal.set 3 (k.dir af) }, ⟨.pduHeader, [some s.length], [0, 0, scal.length + 1]⟩,
+                 ⟨.directive, [some (s.length + 1)], [k.code]⟩, ⟨k.tag, some (s.length + 2) :: objs, scal⟩]) := by
   unfold newPdu at h
   obtain ⟨conf', s1, h1, h2⟩ := (run_bind_some _ _ _ _ _).mp h
   unfold copyConfWithDir at h1
@@ -813,10 +1084,754 @@ theorem C11_heap_conf_bytefields_shared (k : PduKind) (conf : Addr) (objs : List
   cases k <;>
     simp [newDirective, newPduHeader, StateT.run_bind, new_run_eq] at h2 <;>
     obtain ⟨rfl, rfl⟩ := h2 <;>
-    refine ⟨?_, hne, ?_, ?_⟩ <;>
     first
-      | (rw [List.getElem?_append_left hlt]; exact hc0)
-      | simp [List.getElem?_append_right]
+      | exact Or.inl ⟨rfl, rfl, rfl⟩
+      | exact Or.inr ⟨(by intro e; cases e), rfl, rfl⟩
+
+/-- from the PDU object to the configuration it reads: `refs` index chain of `pdu.pdu_header.pdu_conf` -/
+def confPath : PduKind → List Nat
+  | .fileData => [0, 0]
+  | _ => [0, 0, 0]
+
+private theorem reach_leaf {s : Store} {r : Addr} (hl : Leaf s r) : ∀ m x, x ∈ reachN m s r → x = r := by
+  intro m x hx
+  cases m with
+  | zero => simpa [reachN] using hx
+  | succ m =>
+    simp only [reachN, List.mem_cons] at hx
+    rcases hx with h | h
+    · exact h
+    · cases hc : s[r]? with
+      | none => simp [hc] at h
+      | some c => simp [hc, leaf_kids hl hc] at h
+
+/-- everything reachable from a fresh root is fresh, or reachable (in the old store) from an OLD cell a fresh cell refers to -/
+private theorem reach_fresh_or_old (n : Nat) (s t : Store) (hc : Closed s) : ∀ a x, s.length ≤ a → x ∈ reachN n (s ++ t) a →
+    s.length ≤ x ∨ ∃ c ∈ t, ∃ r ∈ c.kids, r < s.length ∧ ∃ m, x ∈ reachN m s r := by
+  induction n with
+  | zero => intro a x ha hx; simp [reachN] at hx; subst hx; exact Or.inl ha
+  | succ n ih =>
+    intro a x ha hx
+    simp only [reachN, List.mem_cons] at hx
+    rcases hx with rfl | hx
+    · exact Or.inl ha
+    · cases hcell : (s ++ t)[a]? with
+      | none => simp [hcell] at hx
+      | some cell =>
+        simp only [hcell, List.mem_flatMap] at hx
+        obtain ⟨r, hr, hx⟩ := hx
+        have hmem : cell ∈ t := by
+          rw [List.getElem?_append_right ha] at hcell
+          exact List.mem_of_getElem? hcell
+        by_cases hrl : r < s.length
+        · rw [C11_heap_alloc_reach n s t r hc hrl] at hx
+          exact Or.inr ⟨cell, hmem, r, hr, hrl, n, hx⟩
+        · exact ih r x (Nat.le_of_not_lt hrl) hx
+
+/-- the caller's configuration as constructors expect it: its object attributes (the three byte fields) hold no objects and
+    are not the configuration itself -/
+def ConfFieldsAreLeaves (s : Store) (conf : Addr) : Prop :=
+  ∀ r ∈ (s[conf]?.map Cell.kids).getD [], Leaf s r ∧ r ≠ conf
+
+instance (s : Store) (conf : Addr) : Decidable (ConfFieldsAreLeaves s conf) := by unfold ConfFieldsAreLeaves; infer_instance
+
+/-- the caller's parameter objects do not lead back to the caller's configuration -/
+def ObjsAvoid (s : Store) (objs : List (Option Addr)) (conf : Addr) : Prop :=
+  ∀ o, some o ∈ objs → ∀ m, conf ∉ reachN m s o
+
+/-- THE alias relation after a CFDP PDU constructor, about the RETURNED PDU (all eight kinds, every closed store):
+    * following `pdu_header`, `pdu_conf` (the access path of the tie) from the returned PDU reaches a NEW cell (`s.length`),
+      not the caller's configuration;
+    * that cell holds the caller's object attributes — the SAME three byte-field addresses (`copy.copy` is shallow) — and the
+      caller's scalars except the direction of the kind; the caller's cell is unchanged;
+    * the caller's configuration cell is NOT reachable from the returned PDU, to any depth (so nothing the caller later
+      assigns to scalar attributes of its configuration is read through the PDU: `C11_heap_conf_scalar_write_invisible`);
+    * every byte field of the caller's configuration IS reachable from the returned PDU (through the index chain
+      `confPath ++ [i]`): what the caller later assigns to `.value` of such a field is read through the PDU;
+    * the PDU object's further object attributes are exactly the caller's objects `objs` (parameter object, list, TLV). -/
+theorem C11_heap_conf_bytefields_shared (k : PduKind) (conf : Addr) (objs : List (Option Addr)) (scal : List Nat) (af : Bool)
+    (fl dl : Nat) (s : Store) (hc : Closed s) (cc : Cell) (hcc : s[conf]? = some cc) (hl : ConfFieldsAreLeaves s conf)
+    (ho : ObjsAvoid s objs conf) (pdu : Addr) (s' : Store)
+    (h : (newPdu k conf objs scal af fl dl).run s = some (pdu, s')) :
+    followAttrs s' pdu ["pdu_header", "pdu_conf"] = some s.length ∧ followIdx s' pdu (confPath k) = some s.length ∧
+    s.length ≠ conf ∧ s'[s.length]? = some { cc with scal := cc.scal.set 3 (k.dir af) } ∧ s'[conf]? = some cc ∧
+    (∀ n, conf ∉ reachN n s' pdu) ∧
+    (∀ i r, cc.refs[i]? = some (some r) → followIdx s' pdu ((confPath k) ++ [i]) = some r) ∧
+    (∃ b, s'[pdu]? = some ⟨k.tag, some b :: objs, scal⟩) := by
+  have hlt : conf < s.length := (List.getElem?_eq_some_iff.mp hcc).1
+  have hne : s.length ≠ conf := fun e => by rw [e] at hlt; exact Nat.lt_irrefl _ hlt
+  have hnotreach : ∀ t a, s.length ≤ a →
+      (∀ c ∈ t, ∀ r ∈ c.kids, r < s.length → r ∈ cc.kids ∨ some r ∈ objs) → ∀ n, conf ∉ reachN n (s ++ t) a := by
+    intro t a ha hk n hx
+    rcases reach_fresh_or_old n s t hc a conf ha hx with hge | ⟨c, hcm, r, hr, hrl, m, hm⟩
+    · exact Nat.lt_irrefl _ (Nat.lt_of_lt_of_le hlt hge)
+    · rcases hk c hcm r hr hrl with hk1 | hk2
+      · have := hl r (by simpa [hcc] using hk1)
+        exact this.2 (reach_leaf this.1 m conf hm).symm
+      · exact ho r hk2 m hm
+  have hrefs : ∀ (i : Nat) (r : Addr), cc.refs[i]? = some (some r) → r < s.length :=
+    fun i r hr => closed_kid_lt hc hcc (kid_of_ref hr)
+  rcases newPdu_shape k conf objs scal af fl dl s cc hcc pdu s' h with ⟨rfl, rfl, rfl⟩ | ⟨hk, rfl, rfl⟩
+  · refine ⟨?_, ?_, hne, ?_, ?_, ?_, ?_, ⟨s.length + 1, ?_⟩⟩
+    · simp [followAttrs, followIdx, attr, PduKind.tag, List.getElem?_append_right]
+    · simp [confPath, followIdx, List.getElem?_append_right]
+    · simp [List.getElem?_append_right]
+    · rw [List.getElem?_append_left hlt]; exact hcc
+    · apply hnotreach _ _ (by omega)
+      intro c hcm r hr hrl
+      simp only [List.mem_cons, List.not_mem_nil, or_false] at hcm
+      rcases hcm with rfl | rfl | rfl
+      · left; simpa [Cell.kids] using hr
+      · simp [Cell.kids] at hr; subst hr; exact absurd hrl (Nat.lt_irrefl _)
+      · simp [Cell.kids] at hr
+        rcases hr with rfl | hr
+        · exact absurd hrl (by simp)
+        · right; exact hr
+    · intro i r hr
+      simp [confPath, followIdx, List.getElem?_append_right, hr]
+    · simp [List.getElem?_append_right]
+  · have hattr : attr k.tag "pdu_header" = some [0, 0] := by cases k <;> first | rfl | exact absurd rfl hk
+    have hcp : confPath k = [0, 0, 0] := by cases k <;> first | rfl | exact absurd rfl hk
+    have hattr2 : attr .pduHeader "pdu_conf" = some [0] := rfl
+    refine ⟨?_, ?_, hne, ?_, ?_, ?_, ?_, ⟨s.length + 2, ?_⟩⟩
+    · simp [followAttrs, followIdx, hattr, hattr2, List.getElem?_append_right]
+    · simp [hcp, followIdx, List.getElem?_append_right]
+    · simp [List.getElem?_append_right]
+    · rw [List.getElem?_append_left hlt]; exact hcc
+    · apply hnotreach _ _ (by omega)
+      intro c hcm r hr hrl
+      simp only [List.mem_cons, List.not_mem_nil, or_false] at hcm
+      rcases hcm with rfl | rfl | rfl | rfl
+      · left; simpa [Cell.kids] using hr
+      · simp [Cell.kids] at hr; subst hr; exact absurd hrl (Nat.lt_irrefl _)
+      · simp [Cell.kids] at hr; subst hr; exact absurd hrl (by simp)
+      · simp [Cell.kids] at hr
+        rcases hr with rfl | hr
+        · exact absurd hrl (by simp)
+        · right; exact hr
+    · intro i r hr
+      simp [hcp, followIdx, List.getElem?_append_right, hr]
+    · simp [List.getElem?_append_right]
+
+/-- GENERAL (every closed store, all eight kinds, every scalar attribute, every value, every depth): an assignment to a SCALAR
+    attribute of the caller's configuration (`conf.crc_flag = …`, `file_flag`, `trans_mode`, `direction`, `seg_ctrl`) after the
+    constructor changes nothing that is read through the PDU, nor what the PDU reaches — the PDU reads its own copy -/
+theorem C11_heap_conf_scalar_write_invisible (k : PduKind) (conf : Addr) (objs : List (Option Addr)) (scal : List Nat) (af : Bool)
+    (fl dl : Nat) (s : Store) (hc : Closed s) (cc : Cell) (hcc : s[conf]? = some cc) (hl : ConfFieldsAreLeaves s conf)
+    (ho : ObjsAvoid s objs conf) (pdu : Addr) (s' : Store) (h : (newPdu k conf objs scal af fl dl).run s = some (pdu, s'))
+    (i v : Nat) (u : Unit) (s'' : Store) (hw : (confSetScalar conf i v).run s' = some (u, s'')) (n : Nat) :
+    viewN n s'' pdu = viewN n s' pdu ∧ reachN n s'' pdu = reachN n s' pdu := by
+  obtain ⟨_, _, _, _, _, hnr, _, _⟩ := C11_heap_conf_bytefields_shared k conf objs scal af fl dl s hc cc hcc hl ho pdu s' h
+  obtain ⟨c, _, rfl⟩ := (setScal_run _ _ _ _ _ _).mp hw
+  exact ⟨C11_heap_frame n s' pdu conf _ (hnr n), C11_heap_frame_reach n s' pdu conf _ (hnr n)⟩
+
+private theorem followIdx_set_same_refs (s : Store) (a : Addr) (c c' : Cell) (hc : s[a]? = some c) (hr : c'.refs = c.refs) :
+    ∀ (path : List Nat) (x : Addr), followIdx (s.set a c') x path = followIdx s x path := by
+  intro path
+  induction path with
+  | nil => intro x; rfl
+  | cons i rest ih =>
+    intro x
+    simp only [followIdx]
+    by_cases hx : a = x
+    · subst hx
+      rw [List.getElem?_set_self (List.getElem?_eq_some_iff.mp hc).1, hc]
+      simp only [hr]
+      cases c.refs[i]? with
+      | none => rfl
+      | some o => cases o with
+        | none => rfl
+        | some r => exact ih r
+    · rw [List.getElem?_set_ne hx]
+      cases s[x]? with
+      | none => rfl
+      | some cx =>
+        simp only
+        cases cx.refs[i]? with
+        | none => rfl
+        | some o => cases o with
+          | none => rfl
+          | some r => exact ih r
+
+/-- GENERAL, truthful (every closed store, all eight kinds, each of the three byte fields, every value): `conf.<field>.value = v`
+    on the caller's configuration after the constructor writes THE VERY CELL the PDU reads at
+    `pdu_header.pdu_conf.<field>` — before and after the assignment that path from the returned PDU ends at the written cell,
+    which now holds `v` (the byte-field objects are shared: `copy.copy` is shallow) -/
+theorem C11_heap_conf_bytefield_write_visible (k : PduKind) (conf : Addr) (objs : List (Option Addr)) (scal : List Nat) (af : Bool)
+    (fl dl : Nat) (s : Store) (hc : Closed s) (cc : Cell) (hcc : s[conf]? = some cc) (hl : ConfFieldsAreLeaves s conf)
+    (ho : ObjsAvoid s objs conf) (pdu : Addr) (s' : Store) (h : (newPdu k conf objs scal af fl dl).run s = some (pdu, s'))
+    (i v : Nat) (u : Unit) (s'' : Store) (hw : (confSetFieldValue conf i v).run s' = some (u, s'')) :
+    ∃ r cr, cc.refs[i]? = some (some r) ∧ s'[r]? = some cr ∧ followIdx s' pdu (confPath k ++ [i]) = some r ∧
+      followIdx s'' pdu (confPath k ++ [i]) = some r ∧ s''[r]? = some { cr with scal := cr.scal.set 1 v } := by
+  obtain ⟨_, _, _, _, hconf, _, hfields, _⟩ := C11_heap_conf_bytefields_shared k conf objs scal af fl dl s hc cc hcc hl ho pdu s' h
+  unfold confSetFieldValue at hw
+  obtain ⟨r, s1, h1, h2⟩ := (run_bind_some _ _ _ _ _).mp hw
+  obtain ⟨⟨c0, hc0, hr⟩, e⟩ := (ref_run _ _ _ _ _).mp h1
+  subst s1
+  have e0 : c0 = cc := by rw [hconf] at hc0; exact (Option.some.inj hc0).symm
+  subst e0
+  obtain ⟨cr, hcr, rfl⟩ := (setScal_run _ _ _ _ _ _).mp h2
+  refine ⟨r, cr, hr, hcr, hfields i r hr, ?_, ?_⟩
+  · rw [followIdx_set_same_refs s' r cr { cr with scal := cr.scal.set 1 v } hcr rfl]; exact hfields i r hr
+  · exact List.getElem?_set_self (List.getElem?_eq_some_iff.mp hcr).1
+
+private theorem touchRef_run (a : Addr) (i : Nat) (s : Store) (u : Unit) (s' : Store) (h : (touchRef a i).run s = some (u, s')) :
+    s' = s := by
+  obtain ⟨t, rfl⟩ := (alloc_touchRef a i).ext s u s' h
+  unfold touchRef at h
+  obtain ⟨c, s1, h1, h2⟩ := (run_bind_some _ _ _ _ _).mp h
+  obtain ⟨hc, e⟩ := (cellAt_run _ _ _ _).mp h1
+  subst s1
+  split at h2
+  · have := ((put_run _ _ _ _ _).mp h2).2
+    have hl := congrArg List.length this
+    simp at hl
+    simp [hl]
+  · have := ((pure_run _ _ _ _).mp h2).2
+    have hl := congrArg List.length this
+    simp at hl
+    simp [hl]
+
+private theorem refOpt_run_store (a : Addr) (i : Nat) (s : Store) (o : Option Addr) (s' : Store)
+    (h : (refOpt a i).run s = some (o, s')) : s' = s := by
+  unfold refOpt at h
+  obtain ⟨c, s1, h1, h2⟩ := (run_bind_some _ _ _ _ _).mp h
+  obtain ⟨_, e⟩ := (cellAt_run _ _ _ _).mp h1
+  subst s1
+  split at h2
+  · exact ((pure_run _ _ _ _).mp h2).2
+  · exact ((fail_run _ _ _).mp h2).elim
+
+private theorem segMetaLen_run_store (o : Option Addr) (s : Store) (n : Nat) (s' : Store)
+    (h : (segMetaLen o).run s = some (n, s')) : s' = s := by
+  cases o with
+  | none => exact ((pure_run _ _ _ _).mp h).2
+  | some m =>
+    simp only [segMetaLen] at h
+    obtain ⟨l, s1, h1, h2⟩ := (run_bind_some _ _ _ _ _).mp h
+    obtain ⟨_, e⟩ := (scalAt_run _ _ _ _ _).mp h1
+    subst s1
+    exact ((pure_run _ _ _ _).mp h2).2
+
+/-- `FinishedPdu(conf, params)` is the common constructor body on `[params]` (its re-assignments into `params` are identities),
+    `FileDataPdu(conf, params)` likewise: every theorem about `newPdu` applies to them -/
+theorem C11_heap_finished_filedata_ctor_is_pdu_ctor (conf params pdu : Addr) (s s' : Store) :
+    ((newFinishedPdu conf params).run s = some (pdu, s') → (newPdu .finished conf [some params] []).run s = some (pdu, s')) ∧
+    ((newFileDataPdu conf params).run s = some (pdu, s') →
+      ∃ fl dl, (newPdu .fileData conf [some params] [] false fl dl).run s = some (pdu, s')) := by
+  constructor
+  · intro h
+    unfold newFinishedPdu at h
+    obtain ⟨p, s1, h1, h2⟩ := (run_bind_some _ _ _ _ _).mp h
+    obtain ⟨u1, s2, h3, h4⟩ := (run_bind_some _ _ _ _ _).mp h2
+    obtain ⟨u2, s3, h5, h6⟩ := (run_bind_some _ _ _ _ _).mp h4
+    have e1 := touchRef_run _ _ _ _ _ h3
+    have e2 := touchRef_run _ _ _ _ _ h5
+    obtain ⟨e3, e4⟩ := (pure_run _ _ _ _).mp h6
+    subst e1 e2 e3 e4
+    exact h1
+  · intro h
+    unfold newFileDataPdu at h
+    obtain ⟨sm, s1, h1, h2⟩ := (run_bind_some _ _ _ _ _).mp h
+    have e1 := refOpt_run_store _ _ _ _ _ h1
+    obtain ⟨n, s2, h3, h4⟩ := (run_bind_some _ _ _ _ _).mp h2
+    obtain ⟨_, e2⟩ := (scalAt_run _ _ _ _ _).mp h3
+    obtain ⟨ml, s3, h5, h6⟩ := (run_bind_some _ _ _ _ _).mp h4
+    have e3 := segMetaLen_run_store _ _ _ _ h5
+    subst e1 e2 e3
+    exact ⟨_, _, h6⟩
+
+/-- C15 / C16: the service-1 report built for a telecommand (`create_<step>_tm(apid, tc, timestamp)`) — the report, its
+    `tc_req_id` with `PacketId` / `PacketSeqCtrl`, its `PusTm` and header — shares no cell with ANY object that existed
+    before (the telecommand in particular), to every depth -/
+theorem C15_heap_service1_separated (n : Nat) (s : Store) (hc : Closed s) (tc : Addr)
+    (hl : ∀ hdr, headerOf s tc = some hdr → KidsAreLeaves s hdr) (apid sub tsLen : Nat)
+    (tm : Addr) (s' : Store) (h : (service1FromTc tc apid sub tsLen).run s = some (tm, s')) (b : Addr) (hb : b < s.length) :
+    Disjoint (reachN n s' tm) (reachN n s' b) := by
+  unfold service1FromTc at h
+  obtain ⟨hdr, s1, h1, h2⟩ := (run_bind_some _ _ _ _ _).mp h
+  obtain ⟨⟨ct, hct, hr⟩, e⟩ := (ref_run _ _ _ _ _).mp h1
+  subst s1
+  obtain ⟨rid, s2, h3, h4⟩ := (run_bind_some _ _ _ _ _).mp h2
+  obtain ⟨ch, pid, psc, cp, cq, ver, hch, hpid, hpsc, _, hcp, hcq, rfl, rfl⟩ := reqIdFromSpHeader_shape s hdr rid s2 h3
+  have hql : psc < s.length := closed_kid_lt hc hch (kid_of_ref hpsc)
+  rw [List.getElem?_append_left hql] at hcq
+  have hlv := hl hdr (by simp [headerOf, hct, hr])
+  have hkp : cp.kids = [] := leaf_kids (hlv pid (by simp [hch, kid_of_ref hpid])) hcp
+  have hkq : cq.kids = [] := leaf_kids (hlv psc (by simp [hch, kid_of_ref hpsc])) hcq
+  simp [newPusTm, newSpHeader, newPacketId, newPsc, StateT.run_bind, new_run_eq] at h4
+  obtain ⟨rfl, rfl⟩ := h4
+  have hsplit : ∀ (t2 : Store), s ++ cp :: cq :: t2 = s ++ ([cp, cq] ++ t2) := fun _ => by simp
+  rw [hsplit]
+  apply C11_heap_fresh_disjoint n s _ _ b hc hb
+  · intro c hcm r hrk
+    rcases List.mem_append.mp hcm with hm | hm
+    · simp only [List.mem_cons, List.not_mem_nil, or_false] at hm
+      rcases hm with rfl | rfl
+      · simp [hkp] at hrk
+      · simp [hkq] at hrk
+    · have key : ∀ t2 : Store, (∀ c ∈ t2, ∀ r ∈ c.kids, s.length ≤ r) → c ∈ t2 → s.length ≤ r :=
+        fun t2 h hc' => h c hc' r hrk
+      refine key _ ?_ hm
+      first | (simp [Cell.kids]; done) | (simp [Cell.kids]; omega)
+  · first | omega | (simp; done) | (simp; omega)
+
+/-- C16: the key `PusVerificator.add_tc(tc)` files the telecommand under (a fresh `RequestId`) shares no cell with any
+    pre-existing object that does not reach the tracker itself — the telecommand in particular — and only the tracker cell
+    is overwritten -/
+theorem C15_heap_verificator_key_separated (n : Nat) (s : Store) (hc : Closed s) (v tc : Addr)
+    (hl : ∀ hdr, headerOf s tc = some hdr → KidsAreLeaves s hdr)
+    (key : Addr) (s' : Store) (h : (verificatorAddTc v tc).run s = some (key, s')) (hvs : v < s.length) (b : Addr)
+    (hb : b < s.length) (hv : v ∉ reachN n s b) :
+    Disjoint (reachN n s' key) (reachN n s' b) ∧ viewN n s' b = viewN n s b := by
+  unfold verificatorAddTc at h
+  obtain ⟨hdr, s1, h1, h2⟩ := (run_bind_some _ _ _ _ _).mp h
+  obtain ⟨⟨ct, hct, hr⟩, e⟩ := (ref_run _ _ _ _ _).mp h1
+  subst s1
+  obtain ⟨rid, s2, h3, h4⟩ := (run_bind_some _ _ _ _ _).mp h2
+  obtain ⟨ch, pid, psc, cp, cq, ver, hch, hpid, hpsc, _, hcp, hcq, rfl, rfl⟩ := reqIdFromSpHeader_shape s hdr rid s2 h3
+  have hql : psc < s.length := closed_kid_lt hc hch (kid_of_ref hpsc)
+  rw [List.getElem?_append_left hql] at hcq
+  have hlv := hl hdr (by simp [headerOf, hct, hr])
+  have hkp : cp.kids = [] := leaf_kids (hlv pid (by simp [hch, kid_of_ref hpid])) hcp
+  have hkq : cq.kids = [] := leaf_kids (hlv psc (by simp [hch, kid_of_ref hpsc])) hcq
+  obtain ⟨st, s3, h5, h6⟩ := (run_bind_some _ _ _ _ _).mp h4
+  obtain ⟨rfl, rfl⟩ := (new_run _ _ _ _).mp h5
+  obtain ⟨cv, s4, h7, h8⟩ := (run_bind_some _ _ _ _ _).mp h6
+  obtain ⟨hcv, e⟩ := (cellAt_run _ _ _ _).mp h7
+  subst s4
+  obtain ⟨u, s5, h9, h10⟩ := (run_bind_some _ _ _ _ _).mp h8
+  obtain ⟨hvl, e⟩ := (put_run _ _ _ _ _).mp h9
+  subst s5
+  obtain ⟨rfl, rfl⟩ := (pure_run _ _ _ _).mp h10
+  -- the store before the tracker is updated: s ++ t
+  have happ : s ++ [cp, cq, ⟨.requestId, [some s.length, some (s.length + 1)], [ver]⟩] ++ [⟨.verifStatus, [], [0, 0, 0, 0, 0]⟩]
+      = s ++ [cp, cq, ⟨.requestId, [some s.length, some (s.length + 1)], [ver]⟩, ⟨.verifStatus, [], [0, 0, 0, 0, 0]⟩] := by simp
+  rw [happ] at hcv hvl ⊢
+  have ht : ∀ c ∈ [cp, cq, (⟨.requestId, [some s.length, some (s.length + 1)], [ver]⟩ : Cell), ⟨.verifStatus, [], [0, 0, 0, 0, 0]⟩],
+      ∀ r ∈ c.kids, s.length ≤ r := by
+    intro c hcm r hrk
+    simp only [List.mem_cons, List.not_mem_nil, or_false] at hcm
+    rcases hcm with rfl | rfl | rfl | rfl
+    · simp [hkp] at hrk
+    · simp [hkq] at hrk
+    · simp [Cell.kids] at hrk; rcases hrk with rfl | rfl <;> simp
+    · simp [Cell.kids] at hrk
+  have hst : Steps [v] s ((s ++ [cp, cq, ⟨.requestId, [some s.length, some (s.length + 1)], [ver]⟩, ⟨.verifStatus, [], [0, 0, 0, 0, 0]⟩]).set v
+      { cv with refs := cv.refs ++ [some (s.length + 2), some (s ++ [cp, cq, ⟨.requestId, [some s.length, some (s.length + 1)], [ver]⟩]).length] }) :=
+    .write v _ (.alloc _ (.refl s)) (by simp)
+  obtain ⟨hview, hreach, _⟩ := C11_heap_steps_frame hst n b (C11_heap_reach_closed n s b hc hb) (by simpa using hv)
+  refine ⟨?_, hview⟩
+  intro x hx hx'
+  rw [hreach] at hx'
+  have hlt := C11_heap_reach_closed n s b hc hb x hx'
+  have hfresh := C11_heap_fresh_reach n s _ (s.length + 2) ht (by omega)
+  have hvn : v ∉ reachN n (s ++ [cp, cq, ⟨.requestId, [some s.length, some (s.length + 1)], [ver]⟩, ⟨.verifStatus, [], [0, 0, 0, 0, 0]⟩]) (s.length + 2) :=
+    fun hm => Nat.lt_irrefl _ (Nat.lt_of_lt_of_le hvs (hfresh v hm))
+  rw [C11_heap_frame_reach n _ (s.length + 2) v _ hvn] at hx
+  exact Nat.lt_irrefl _ (Nat.lt_of_lt_of_le hlt (hfresh x hx))
+
+/-! ### constructors and factories KEEP the caller's object (general; stated as what the code does) -/
+
+/-- `EofPdu(conf, …, fault_location=t)`, `NakPdu(conf, …, segment_requests=l)`, `MetadataPdu(conf, params, options)`,
+    `FinishedPdu(conf, params)`, `FileDataPdu(conf, params)`: the returned PDU holds THE CALLER'S object — the public access
+    path from the returned PDU ends at the very address that was passed in (File Data has no public accessor for its
+    parameter object: stated for the object attribute itself, index 1) -/
+theorem C11_heap_pdu_ctor_keeps_caller_object (conf : Addr) (s : Store) (cc : Cell) (hcc : s[conf]? = some cc) (x : Addr)
+    (hx : x < s.length) (pdu : Addr) (s' : Store) :
+    (∀ size cond, (newEofPdu conf size cond (some x)).run s = some (pdu, s') → followAttrs s' pdu ["fault_location"] = some x) ∧
+    (∀ a b, (newNakPdu conf a b (some x)).run s = some (pdu, s') → followAttrs s' pdu ["segment_requests"] = some x) ∧
+    (∀ o, (newMetadataPdu conf x o).run s = some (pdu, s') → followAttrs s' pdu ["params"] = some x) ∧
+    (∀ p, (newMetadataPdu conf p (some x)).run s = some (pdu, s') → followAttrs s' pdu ["options"] = some x) ∧
+    ((newFinishedPdu conf x).run s = some (pdu, s') → followAttrs s' pdu ["finished_params"] = some x) ∧
+    ((newFileDataPdu conf x).run s = some (pdu, s') → followIdx s' pdu [1] = some x) := by
+  have hx' : ∀ t : Store, x < (s ++ t).length := fun t => by rw [List.length_append]; exact Nat.lt_of_lt_of_le hx (Nat.le_add_right _ _)
+  have key : ∀ (k : PduKind) objs scal af fl dl, (newPdu k conf objs scal af fl dl).run s = some (pdu, s') →
+      ∃ b, s'[pdu]? = some ⟨k.tag, some b :: objs, scal⟩ ∧ x < s'.length := by
+    intro k objs scal af fl dl h
+    rcases newPdu_shape k conf objs scal af fl dl s cc hcc pdu s' h with ⟨_, rfl, rfl⟩ | ⟨_, rfl, rfl⟩
+    · exact ⟨s.length + 1, by simp [List.getElem?_append_right], hx' _⟩
+    · exact ⟨s.length + 2, by simp [List.getElem?_append_right], hx' _⟩
+  refine ⟨?_, ?_, ?_, ?_, ?_, ?_⟩
+  · intro size cond h
+    obtain ⟨b, hp, hl⟩ := key .eof _ _ _ _ _ h
+    simp [followAttrs, followIdx, attr, hp, PduKind.tag, hl]
+  · intro a b h
+    obtain ⟨b', hp, hl⟩ := key .nak [some x] [a, b] false 0 0 h
+    simp [followAttrs, followIdx, attr, hp, PduKind.tag, hl]
+  · intro o h
+    obtain ⟨b, hp, hl⟩ := key .metadata _ _ _ _ _ h
+    simp [followAttrs, followIdx, attr, hp, PduKind.tag, hl]
+  · intro p h
+    obtain ⟨b, hp, hl⟩ := key .metadata _ _ _ _ _ h
+    simp [followAttrs, followIdx, attr, hp, PduKind.tag, hl]
+  · intro h
+    obtain ⟨b, hp, hl⟩ := key .finished _ _ _ _ _ ((C11_heap_finished_filedata_ctor_is_pdu_ctor conf x pdu s s').1 h)
+    simp [followAttrs, followIdx, attr, hp, PduKind.tag, hl]
+  · intro h
+    obtain ⟨fl, dl, h'⟩ := (C11_heap_finished_filedata_ctor_is_pdu_ctor conf x pdu s s').2 h
+    obtain ⟨b, hp, hl⟩ := key .fileData _ _ _ _ _ h'
+    simp [followIdx, hp]
+
+/-- `PusTc.from_composite_fields(header, sec_header, data)` ADOPTS both objects: the new telecommand's `sp_header` and
+    `pus_tc_sec_header` are the caller's objects; `PduHolder(x)` / `holder.pdu = x` keep `x`;
+    `Service1Tm(…, verif_params=vp)` keeps `vp` (so `report.tc_req_id` is the caller's `RequestId` object) -/
+theorem C02_heap_adoption_keeps_caller_object (s : Store) (x : Addr) (hx : x < s.length) (r : Addr) (s' : Store) :
+    (∀ sec n, sec < s.length → (tcFromCompositeFields x sec n).run s = some (r, s') →
+      followAttrs s' r ["sp_header"] = some x ∧ followAttrs s' r ["pus_tc_sec_header"] = some sec) ∧
+    ((newHolder (some x)).run s = some (r, s') → followAttrs s' r ["pdu"] = some x) ∧
+    (∀ apid sub ts, (newService1Tm x apid sub ts).run s = some (r, s') → followIdx s' r [0] = some x ∧
+      ∀ rid cx, s[x]? = some cx → cx.refs[0]? = some (some rid) → rid < s.length →
+        followAttrs s' r ["tc_req_id"] = some rid) := by
+  refine ⟨?_, ?_, ?_⟩
+  · intro sec n hsec h
+    unfold tcFromCompositeFields at h
+    obtain ⟨pid, s1, h1, h2⟩ := (run_bind_some _ _ _ _ _).mp h
+    obtain ⟨_, e⟩ := (ref_run _ _ _ _ _).mp h1
+    subst s1
+    obtain ⟨pt, s2, h3, h4⟩ := (run_bind_some _ _ _ _ _).mp h2
+    obtain ⟨_, e⟩ := (scalAt_run _ _ _ _ _).mp h3
+    subst s2
+    split at h4
+    · exact ((fail_run _ _ _).mp h4).elim
+    · obtain ⟨rfl, rfl⟩ := (new_run _ _ _ _).mp h4
+      constructor <;> simp [followAttrs, followIdx, attr, List.getElem?_append_right] <;>
+        first | exact Nat.lt_succ_of_lt hx | exact Nat.lt_succ_of_lt hsec
+  · intro h
+    obtain ⟨rfl, rfl⟩ := (new_run _ _ _ _).mp h
+    simp [followAttrs, followIdx, attr, List.getElem?_append_right]
+    exact Nat.lt_succ_of_lt hx
+  · intro apid sub ts h
+    unfold newService1Tm newPusTm newSpHeader newPacketId newPsc at h
+    obtain ⟨c, s1, h1, h2⟩ := (run_bind_some _ _ _ _ _).mp h
+    obtain ⟨hcx, e⟩ := (cellAt_run _ _ _ _).mp h1
+    subst s1
+    simp [StateT.run_bind, new_run_eq] at h2
+    obtain ⟨rfl, rfl⟩ := h2
+    refine ⟨by simp [followIdx, List.getElem?_append_right, Nat.add_assoc], ?_⟩
+    intro rid cx hcx' href hrid
+    simp [followAttrs, followIdx, attr, List.getElem?_append_right, List.getElem?_append_left hx, hcx', href, Nat.add_assoc]
+    exact Nat.lt_of_lt_of_le hrid (Nat.le_add_right _ _)
+
+/-! ### setters that write INTO caller-supplied objects: what they write, and what they cannot touch (general) -/
+
+private theorem setRef_run (a : Addr) (i : Nat) (v : Option Addr) (s : Store) (u : Unit) (s' : Store) :
+    (setRef a i v).run s = some (u, s') ↔ ∃ c, s[a]? = some c ∧ s' = s.set a { c with refs := c.refs.set i v } := by
+  unfold setRef
+  rw [run_bind_some]
+  constructor
+  · rintro ⟨c, s1, h1, h2⟩
+    obtain ⟨hc, rfl⟩ := (cellAt_run _ _ _ _).mp h1
+    exact ⟨c, hc, ((put_run _ _ _ _ _).mp h2).2⟩
+  · rintro ⟨c, hc, rfl⟩
+    exact ⟨c, s, (cellAt_run _ _ _ _).mpr ⟨hc, rfl⟩, (put_run _ _ _ _ _).mpr ⟨(List.getElem?_eq_some_iff.mp hc).1, rfl⟩⟩
+
+private theorem followIdx_one {s : Store} {a r : Addr} {c : Cell} {i : Nat} (hc : s[a]? = some c) (hr : c.refs[i]? = some (some r)) :
+    followIdx s a [i] = some r := by
+  simp [followIdx, hc, hr]
+
+private theorem followIdx_two {s : Store} {a b r : Addr} {c d : Cell} {i j : Nat} (hc : s[a]? = some c) (hr : c.refs[i]? = some (some b))
+    (hd : s[b]? = some d) (hr2 : d.refs[j]? = some (some r)) : followIdx s a [i, j] = some r := by
+  simp [followIdx, hc, hr, hd, hr2]
+
+/-- what a call that only overwrites cells of `W` and allocates cannot touch (the conclusion of `C11_heap_steps_frame`) -/
+def FrameOutside (W : List Addr) (s s' : Store) : Prop :=
+  ∀ n x, Valid n s x → (∀ a ∈ W, a ∉ reachN n s x) → viewN n s' x = viewN n s x ∧ reachN n s' x = reachN n s x
+
+private theorem frameOutside_of_steps {W : List Addr} {s s' : Store} (h : Steps W s s') : FrameOutside W s s' :=
+  fun n x hv hw => let ⟨a, b, _⟩ := C11_heap_steps_frame h n x hv hw; ⟨a, b⟩
+
+/-- GENERAL (every store, every `FinOp`): a Finished-PDU setter (`condition_code`, `fault_location`, `file_store_responses`,
+    `None` included) overwrites exactly two pre-existing cells — the parameter object the PDU holds (the CALLER's
+    `FinishedParams`, see `C11_heap_pdu_ctor_keeps_caller_object`) and the PDU's header — and allocates at most a list; every
+    handle that reaches neither shows the same view afterwards -/
+theorem C11_heap_finished_setter_confined (s : Store) (pdu : Addr) (op : FinOp) (u : Unit) (s' : Store)
+    (h : (finSet pdu op).run s = some (u, s')) :
+    ∃ p hd, followIdx s pdu [1] = some p ∧ followIdx s pdu [0, 0] = some hd ∧ FrameOutside [p, hd] s s' := by
+  have pre : ∀ {β : Type} (k : Addr → Addr → H β) (r : β), (do
+        let p ← ref pdu 1
+        let b ← ref pdu 0
+        let hd ← ref b 0
+        k p hd).run s = some (r, s') →
+      ∃ p hd, followIdx s pdu [1] = some p ∧ followIdx s pdu [0, 0] = some hd ∧ (k p hd).run s = some (r, s') := by
+    intro β k r h
+    obtain ⟨p, s1, h1, h2⟩ := (run_bind_some _ _ _ _ _).mp h
+    obtain ⟨⟨cp, hcp, hr1⟩, e⟩ := (ref_run _ _ _ _ _).mp h1
+    subst s1
+    obtain ⟨b, s2, h3, h4⟩ := (run_bind_some _ _ _ _ _).mp h2
+    obtain ⟨⟨cp', hcp', hr2⟩, e⟩ := (ref_run _ _ _ _ _).mp h3
+    subst s2
+    have e1 : cp' = cp := by rw [hcp] at hcp'; exact (Option.some.inj hcp').symm
+    subst e1
+    obtain ⟨hd, s3, h5, h6⟩ := (run_bind_some _ _ _ _ _).mp h4
+    obtain ⟨⟨cb, hcb, hr3⟩, e⟩ := (ref_run _ _ _ _ _).mp h5
+    subst s3
+    exact ⟨p, hd, followIdx_one hcp hr1, followIdx_two hcp hr2 hcb hr3, h6⟩
+  cases op with
+  | cond v =>
+    obtain ⟨p, hd, hp, hh, h⟩ := pre (fun p hd => do setScal p 0 v; setScal hd 2 (2 + v)) u h
+    refine ⟨p, hd, hp, hh, frameOutside_of_steps ?_⟩
+    obtain ⟨u1, s1, h1, h2⟩ := (run_bind_some _ _ _ _ _).mp h
+    obtain ⟨c1, _, rfl⟩ := (setScal_run _ _ _ _ _ _).mp h1
+    obtain ⟨c2, _, rfl⟩ := (setScal_run _ _ _ _ _ _).mp h2
+    exact .write hd _ (.write p _ (.refl s) (by simp)) (by simp)
+  | faultLoc t =>
+    cases t with
+    | some a =>
+      obtain ⟨p, hd, hp, hh, h⟩ := pre (fun p hd => do setRef p 1 (some a); setScal hd 2 7) u h
+      refine ⟨p, hd, hp, hh, frameOutside_of_steps ?_⟩
+      obtain ⟨u1, s1, h1, h2⟩ := (run_bind_some _ _ _ _ _).mp h
+      obtain ⟨c1, _, rfl⟩ := (setRef_run _ _ _ _ _ _).mp h1
+      obtain ⟨c2, _, rfl⟩ := (setScal_run _ _ _ _ _ _).mp h2
+      exact .write hd _ (.write p _ (.refl s) (by simp)) (by simp)
+    | none =>
+      obtain ⟨p, hd, hp, hh, h⟩ := pre (fun p hd => do setRef p 1 none; setScal hd 2 2) u h
+      refine ⟨p, hd, hp, hh, frameOutside_of_steps ?_⟩
+      obtain ⟨u1, s1, h1, h2⟩ := (run_bind_some _ _ _ _ _).mp h
+      obtain ⟨c1, _, rfl⟩ := (setRef_run _ _ _ _ _ _).mp h1
+      obtain ⟨c2, _, rfl⟩ := (setScal_run _ _ _ _ _ _).mp h2
+      exact .write hd _ (.write p _ (.refl s) (by simp)) (by simp)
+  | responses l =>
+    cases l with
+    | some a =>
+      obtain ⟨p, hd, hp, hh, h⟩ := pre (fun p hd => do setRef p 0 (some a); setScal hd 2 11) u h
+      refine ⟨p, hd, hp, hh, frameOutside_of_steps ?_⟩
+      obtain ⟨u1, s1, h1, h2⟩ := (run_bind_some _ _ _ _ _).mp h
+      obtain ⟨c1, _, rfl⟩ := (setRef_run _ _ _ _ _ _).mp h1
+      obtain ⟨c2, _, rfl⟩ := (setScal_run _ _ _ _ _ _).mp h2
+      exact .write hd _ (.write p _ (.refl s) (by simp)) (by simp)
+    | none =>
+      obtain ⟨p, hd, hp, hh, h⟩ := pre (fun p hd => do
+        let e ← new ⟨.pyList, [], []⟩
+        setRef p 0 (some e)
+        setScal hd 2 2) u h
+      refine ⟨p, hd, hp, hh, frameOutside_of_steps ?_⟩
+      obtain ⟨e, s0, h0, h⟩ := (run_bind_some _ _ _ _ _).mp h
+      obtain ⟨rfl, rfl⟩ := (new_run _ _ _ _).mp h0
+      obtain ⟨u1, s1, h1, h2⟩ := (run_bind_some _ _ _ _ _).mp h
+      obtain ⟨c1, _, rfl⟩ := (setRef_run _ _ _ _ _ _).mp h1
+      obtain ⟨c2, _, rfl⟩ := (setScal_run _ _ _ _ _ _).mp h2
+      exact .write hd _ (.write p _ (.alloc _ (.refl s)) (by simp)) (by simp)
+
+/-- GENERAL, truthful: `pdu.condition_code = v` assigns the scalar of the parameter object the PDU holds — after
+    `FinishedPdu(conf, params)` that is the caller's `params` — while the constructor itself leaves it as it was
+    (`C11_heap_eight_ctors_inputs_untouched`) -/
+theorem C11_heap_finished_setter_writes_caller_params (s : Store) (pdu : Addr) (v : Nat) (u : Unit) (s' : Store)
+    (h : (finSet pdu (.cond v)).run s = some (u, s')) :
+    ∃ p hd cp, followIdx s pdu [1] = some p ∧ followIdx s pdu [0, 0] = some hd ∧ s[p]? = some cp ∧
+      (p ≠ hd → s'[p]? = some { cp with scal := cp.scal.set 0 v }) := by
+  simp only [finSet] at h
+  obtain ⟨p, s1, h1, h2⟩ := (run_bind_some _ _ _ _ _).mp h
+  obtain ⟨⟨cpdu, hcpdu, hr1⟩, e⟩ := (ref_run _ _ _ _ _).mp h1
+  subst s1
+  obtain ⟨b, s2, h3, h4⟩ := (run_bind_some _ _ _ _ _).mp h2
+  obtain ⟨⟨c', hc', hr2⟩, e⟩ := (ref_run _ _ _ _ _).mp h3
+  subst s2
+  have e1 : c' = cpdu := by rw [hcpdu] at hc'; exact (Option.some.inj hc').symm
+  subst e1
+  obtain ⟨hd, s3, h5, h6⟩ := (run_bind_some _ _ _ _ _).mp h4
+  obtain ⟨⟨cb, hcb, hr3⟩, e⟩ := (ref_run _ _ _ _ _).mp h5
+  subst s3
+  obtain ⟨u1, s4, h7, h8⟩ := (run_bind_some _ _ _ _ _).mp h6
+  obtain ⟨cp, hcp, rfl⟩ := (setScal_run _ _ _ _ _ _).mp h7
+  obtain ⟨ch, _, rfl⟩ := (setScal_run _ _ _ _ _ _).mp h8
+  refine ⟨p, hd, cp, followIdx_one hcpdu hr1, followIdx_two hcpdu hr2 hcb hr3, hcp, ?_⟩
+  intro hne
+  rw [List.getElem?_set_ne (fun e => hne e.symm), List.getElem?_set_self (List.getElem?_eq_some_iff.mp hcp).1]
+
+/-- GENERAL: the File Data setters (`file_data`, `segment_metadata`) overwrite exactly the parameter object the PDU holds
+    (the caller's `FileDataParams`) and the PDU's header; `holder.pdu = x` overwrites exactly the holder -/
+theorem C11_heap_filedata_holder_setter_confined (s : Store) (obj : Addr) (u : Unit) (s' : Store) :
+    (∀ op, (fdSet obj op).run s = some (u, s') →
+      ∃ p hd, followIdx s obj [1] = some p ∧ followIdx s obj [0] = some hd ∧ FrameOutside [p, hd] s s') ∧
+    (∀ x, (holderSet obj x).run s = some (u, s') → FrameOutside [obj] s s' ∧
+      ∃ c, s[obj]? = some c ∧ s'[obj]? = some { c with refs := c.refs.set 0 x }) := by
+  constructor
+  · intro op h
+    cases op with
+    | fileData n =>
+      simp only [fdSet] at h
+      obtain ⟨p, s1, h1, h2⟩ := (run_bind_some _ _ _ _ _).mp h
+      obtain ⟨⟨co, hco, hr1⟩, e⟩ := (ref_run _ _ _ _ _).mp h1
+      subst s1
+      obtain ⟨hd, s2, h3, h4⟩ := (run_bind_some _ _ _ _ _).mp h2
+      obtain ⟨⟨co', hco', hr2⟩, e⟩ := (ref_run _ _ _ _ _).mp h3
+      subst s2
+      have e1 : co' = co := by rw [hco] at hco'; exact (Option.some.inj hco').symm
+      subst e1
+      obtain ⟨sm, s3, h5, h6⟩ := (run_bind_some _ _ _ _ _).mp h4
+      have e2 := refOpt_run_store _ _ _ _ _ h5
+      subst e2
+      obtain ⟨ml, s4, h7, h8⟩ := (run_bind_some _ _ _ _ _).mp h6
+      have e3 := segMetaLen_run_store _ _ _ _ h7
+      subst e3
+      obtain ⟨u1, s5, h9, h10⟩ := (run_bind_some _ _ _ _ _).mp h8
+      obtain ⟨c1, _, rfl⟩ := (setScal_run _ _ _ _ _ _).mp h9
+      obtain ⟨c2, _, rfl⟩ := (setScal_run _ _ _ _ _ _).mp h10
+      exact ⟨p, hd, followIdx_one hco hr1, followIdx_one hco hr2,
+        frameOutside_of_steps (.write hd _ (.write p _ (.refl _) (by simp)) (by simp))⟩
+    | segMeta m =>
+      simp only [fdSet] at h
+      obtain ⟨p, s1, h1, h2⟩ := (run_bind_some _ _ _ _ _).mp h
+      obtain ⟨⟨co, hco, hr1⟩, e⟩ := (ref_run _ _ _ _ _).mp h1
+      subst s1
+      obtain ⟨hd, s2, h3, h4⟩ := (run_bind_some _ _ _ _ _).mp h2
+      obtain ⟨⟨co', hco', hr2⟩, e⟩ := (ref_run _ _ _ _ _).mp h3
+      subst s2
+      have e1 : co' = co := by rw [hco] at hco'; exact (Option.some.inj hco').symm
+      subst e1
+      obtain ⟨n, s3, h5, h6⟩ := (run_bind_some _ _ _ _ _).mp h4
+      obtain ⟨_, e⟩ := (scalAt_run _ _ _ _ _).mp h5
+      subst s3
+      obtain ⟨ml, s4, h7, h8⟩ := (run_bind_some _ _ _ _ _).mp h6
+      have e3 := segMetaLen_run_store _ _ _ _ h7
+      subst e3
+      obtain ⟨u1, s5, h9, h10⟩ := (run_bind_some _ _ _ _ _).mp h8
+      obtain ⟨c1, _, rfl⟩ := (setRef_run _ _ _ _ _ _).mp h9
+      obtain ⟨u2, s6, h11, h12⟩ := (run_bind_some _ _ _ _ _).mp h10
+      obtain ⟨c2, _, rfl⟩ := (setScal_run _ _ _ _ _ _).mp h11
+      obtain ⟨c3, _, rfl⟩ := (setScal_run _ _ _ _ _ _).mp h12
+      exact ⟨p, hd, followIdx_one hco hr1, followIdx_one hco hr2,
+        frameOutside_of_steps (.write hd _ (.write hd _ (.write p _ (.refl _) (by simp)) (by simp)) (by simp))⟩
+  · intro x h
+    obtain ⟨c, hc, rfl⟩ := (setRef_run _ _ _ _ _ _).mp h
+    exact ⟨frameOutside_of_steps (.write obj _ (.refl s) (by simp)), c, hc,
+      List.getElem?_set_self (List.getElem?_eq_some_iff.mp hc).1⟩
+
+/-! ### closure preservation: the hypotheses `Closed s`, `a < s.length` of the theorems above hold again after a call,
+so calls can be CHAINED by proof (side conditions: the address arguments are cells of the store) -/
+
+/-- after the call the store is closed again, has not shrunk, and the result is a cell of it -/
+def KeepsClosed (m : H Addr) : Prop :=
+  ∀ s, Closed s → ∀ r s', m.run s = some (r, s') → Closed s' ∧ s.length ≤ s'.length ∧ r < s'.length
+
+private theorem ScalSteps.closed {R : List Addr} {s s' : Store} (h : ScalSteps R s s') (hc : Closed s) :
+    Closed s' ∧ s'.length = s.length := by
+  induction h with
+  | refl => exact ⟨hc, rfl⟩
+  | snoc a c f _ _ hcell ih => exact ⟨closed_set_same_refs ih.1 hcell rfl, by rw [List.length_set]; exact ih.2⟩
+
+/-- setter calls (any sequence of telecommand / telemetry setters) keep a closed store closed and its size -/
+theorem C02_heap_setters_keep_closed (s : Store) (hc : Closed s) (p : Addr) :
+    (∀ ops : List TcOp, Closed (runOps (tcSet p) ops s) ∧ (runOps (tcSet p) ops s).length = s.length) ∧
+    (∀ ops : List TmOp, Closed (runOps (tmSet p) ops s) ∧ (runOps (tmSet p) ops s).length = s.length) := by
+  have gen : ∀ {α : Type} (f : α → H Unit), (∀ s op u s', (f op).run s = some (u, s') → ScalSteps (reachN 2 s p) s s') →
+      ∀ (ops : List α) (s0 : Store), Closed s0 → Closed (runOps f ops s0) ∧ (runOps f ops s0).length = s0.length := by
+    intro α f hf ops
+    induction ops with
+    | nil => intro s0 h0; exact ⟨h0, rfl⟩
+    | cons o ops ih =>
+      intro s0 h0
+      simp only [runOps, List.foldl_cons]
+      cases hrun : (f o).run s0 with
+      | none => exact ih s0 h0
+      | some q =>
+        obtain ⟨u, s1⟩ := q
+        obtain ⟨c1, l1⟩ := (hf s0 o u s1 hrun).closed h0
+        obtain ⟨c2, l2⟩ := ih s1 c1
+        exact ⟨c2, by rw [← l1]; exact l2⟩
+  exact ⟨fun ops => gen (tcSet p) (fun s op u s' h => C02_heap_tc_setter_confined 0 s p op u s' h) ops s hc,
+         fun ops => gen (tmSet p) (fun s op u s' h => C02_heap_tm_setter_confined 0 s p op u s' h) ops s hc⟩
+
+/-- the builders without address arguments, `RequestId.from_sp_header` / `from_pus_tc`, `to_space_packet()` (TC and TM) and
+    the common body of the eight PDU constructors (caller objects must be cells of the store) keep closed stores closed -/
+theorem C11_heap_ops_keep_closed :
+    (∀ a b c d e f g, KeepsClosed (newPusTc a b c d e f g)) ∧ (∀ a b c d e f, KeepsClosed (newPusTm a b c d e f)) ∧
+    (∀ a b c d e f g, KeepsClosed (newSpHeader a b c d e f g)) ∧
+    KeepsClosed finishedSuccessParams ∧ KeepsClosed finishedEmptyParams ∧ KeepsClosed fileDataEmptyParams ∧
+    KeepsClosed pduConfigDefault ∧ (∀ w v, KeepsClosed (newByteField w v)) ∧
+    (∀ hdr, KeepsClosed (reqIdFromSpHeader hdr)) ∧ (∀ tc, KeepsClosed (reqIdFromPusTc tc)) ∧
+    (∀ p, KeepsClosed (tcToSpacePacket p)) ∧ (∀ p, KeepsClosed (tmToSpacePacket p)) ∧
+    (∀ k conf objs scal af fl dl s, Closed s → (∀ o, some o ∈ objs → o < s.length) →
+      ∀ r s', (newPdu k conf objs scal af fl dl).run s = some (r, s') → Closed s' ∧ s.length ≤ s'.length ∧ r < s'.length) := by
+  have noarg : ∀ (m : H Addr), (∀ s r s', m.run s = some (r, s') →
+      ∃ t, s' = s ++ t ∧ (∀ c ∈ t, ∀ x ∈ c.kids, x < s.length + t.length) ∧ r < s.length + t.length) → KeepsClosed m := by
+    intro m hm s hc r s' h
+    obtain ⟨t, rfl, ht, hr⟩ := hm s r s' h
+    exact ⟨closed_append hc ht, by simp, by simpa using hr⟩
+  have hreq : ∀ hdr, KeepsClosed (reqIdFromSpHeader hdr) := by
+    intro hdr s hc r s' h
+    obtain ⟨ch, pid, psc, cp, cq, ver, hch, hpid, hpsc, _, hcp, hcq, rfl, rfl⟩ := reqIdFromSpHeader_shape s hdr r s' h
+    have hql : psc < s.length := closed_kid_lt hc hch (kid_of_ref hpsc)
+    rw [List.getElem?_append_left hql] at hcq
+    refine ⟨closed_append hc ?_, by simp, by simp⟩
+    intro c hcm x hx
+    simp only [List.mem_cons, List.not_mem_nil, or_false] at hcm
+    rcases hcm with rfl | rfl | rfl
+    · exact Nat.lt_of_lt_of_le (closed_kid_lt hc hcp hx) (Nat.le_add_right _ _)
+    · exact Nat.lt_of_lt_of_le (closed_kid_lt hc hcq hx) (Nat.le_add_right _ _)
+    · simp [Cell.kids] at hx; rcases hx with rfl | rfl <;> simp
+  have hsp : ∀ secLen p, KeepsClosed (do
+        let hdr ← ref p 0
+        let n ← scalAt p 0
+        setScal p 1 1
+        let hdr' ← deepCopyHeader hdr
+        new ⟨.spacePacket, [some hdr'], [secLen, n + 2]⟩ : H Addr) := by
+    intro secLen p s hc r s' h
+    obtain ⟨cp, hdr, m, ch, pid, psc, c1, c2, hcp, hr, _, hch, hpid, hpsc, hc1, hc2, rfl, rfl⟩ := toSpacePacket_shape secLen p r s s' h
+    have hc1s := closed_set_same_refs hc hcp (c' := { cp with scal := cp.scal.set 1 1 }) rfl
+    have hlen : (s.set p { cp with scal := cp.scal.set 1 1 }).length = s.length := List.length_set
+    have hql : psc < (s.set p { cp with scal := cp.scal.set 1 1 }).length := closed_kid_lt hc1s hch (kid_of_ref hpsc)
+    rw [List.getElem?_append_left hql] at hc2
+    refine ⟨closed_append hc1s ?_, by simp [hlen], by simp [hlen]⟩
+    intro c hcm x hx
+    rw [hlen]
+    simp only [List.mem_cons, List.not_mem_nil, or_false] at hcm
+    rcases hcm with rfl | rfl | rfl | rfl
+    · exact Nat.lt_of_lt_of_le (by rw [← hlen]; exact closed_kid_lt hc1s hc1 hx) (Nat.le_add_right _ _)
+    · exact Nat.lt_of_lt_of_le (by rw [← hlen]; exact closed_kid_lt hc1s hc2 hx) (Nat.le_add_right _ _)
+    · simp [Cell.kids] at hx; rcases hx with rfl | rfl <;> simp
+    · simp [Cell.kids] at hx; subst hx; simp
+  have hnoarg : ∀ (m : H Addr), (∀ s r s', m.run s = some (r, s') →
+      ∃ t, s' = s ++ t ∧ (∀ c ∈ t, ∀ x ∈ c.kids, x < s.length + t.length) ∧ r < s.length + t.length) → KeepsClosed m := noarg
+  refine ⟨?_, ?_, ?_, ?_, ?_, ?_, ?_, ?_, hreq, ?_, fun p => hsp 5 p, fun p => hsp 7 p, ?_⟩
+  case refine_9 =>
+    intro tc s hc r s' h
+    unfold reqIdFromPusTc at h
+    obtain ⟨hdr, s1, h1, h2⟩ := (run_bind_some _ _ _ _ _).mp h
+    obtain ⟨_, e⟩ := (ref_run _ _ _ _ _).mp h1
+    subst s1
+    exact hreq hdr s hc r s' h2
+  case refine_10 =>
+    intro k conf objs scal af fl dl s hc hobjs r s' h
+    have hcc : ∃ cc, s[conf]? = some cc := by
+      unfold newPdu copyConfWithDir at h
+      obtain ⟨_, _, h1, _⟩ := (run_bind_some _ _ _ _ _).mp h
+      obtain ⟨c0, _, h3, _⟩ := (run_bind_some _ _ _ _ _).mp h1
+      exact ⟨c0, ((cellAt_run _ _ _ _).mp h3).1⟩
+    obtain ⟨cc, hcc⟩ := hcc
+    have hkid : ∀ x ∈ cc.kids, x < s.length := fun x hx => closed_kid_lt hc hcc hx
+    rcases newPdu_shape k conf objs scal af fl dl s cc hcc r s' h with ⟨_, rfl, rfl⟩ | ⟨_, rfl, rfl⟩
+    · refine ⟨closed_append hc ?_, by simp, by simp⟩
+      intro c hcm x hx
+      simp only [List.mem_cons, List.not_mem_nil, or_false] at hcm
+      rcases hcm with rfl | rfl | rfl
+      · exact Nat.lt_of_lt_of_le (hkid x (by simpa [Cell.kids] using hx)) (Nat.le_add_right _ _)
+      · simp [Cell.kids] at hx; subst hx; simp
+      · simp [Cell.kids] at hx
+        rcases hx with rfl | hx
+        · simp
+        · exact Nat.lt_of_lt_of_le (hobjs x hx) (Nat.le_add_right _ _)
+    · refine ⟨closed_append hc ?_, by simp, by simp⟩
+      intro c hcm x hx
+      simp only [List.mem_cons, List.not_mem_nil, or_false] at hcm
+      rcases hcm with rfl | rfl | rfl | rfl
+      · exact Nat.lt_of_lt_of_le (hkid x (by simpa [Cell.kids] using hx)) (Nat.le_add_right _ _)
+      · simp [Cell.kids] at hx; subst hx; simp
+      · simp [Cell.kids] at hx; subst hx; simp
+      · simp [Cell.kids] at hx
+        rcases hx with rfl | hx
+        · simp
+        · exact Nat.lt_of_lt_of_le (hobjs x hx) (Nat.le_add_right _ _)
+  all_goals
+    intros
+    apply hnoarg
+    intro s r s' h
+    simp [newPusTc, newTcSec, newPusTm, newSpHeader, newPacketId, newPsc, finishedSuccessParams, finishedEmptyParams,
+      fileDataEmptyParams, newFinishedParams, newFileDataParams, pduConfigDefault, newByteField, newPduConfig,
+      StateT.run_bind, new_run_eq] at h
+    obtain ⟨rfl, rfl⟩ := h
+    refine ⟨_, rfl, ?_, ?_⟩ <;> first | (simp [Cell.kids]; done) | (simp [Cell.kids]; omega)
 
 /-- the call does not raise and its result and the store afterwards satisfy `P` -/
 def Holds {α : Type} (r : Option (α × Store)) (P : α → Store → Prop) : Prop := ∃ a s', r = some (a, s') ∧ P a s'
@@ -880,13 +1895,13 @@ example : Closed exConfStore ∧ ((newNakPdu 3 0 100 none).run exConfStore).isSo
 
 /-- TRUTHFUL consequence of the shallow copy: assigning `.value` of a byte field the caller's configuration holds DOES
     change what is read through a PDU built from it earlier (the byte-field object is shared) … -/
-theorem C11_heap_conf_bytefield_write_visible :
+example :
     Holds ((newKeepAlivePdu 3 77).run exConfStore) fun pdu s' =>
       Holds ((confSetFieldValue 3 0 99).run s') fun _ s'' => view s'' pdu ≠ view s' pdu := by decide
 
 /-- TRUTHFUL: the setters of a Finished PDU write into the parameter object the caller passed to the constructor
     (`pdu.condition_code = …` changes the caller's `FinishedParams`); the constructor itself does not -/
-theorem C11_heap_finished_setter_writes_caller_params :
+example :
     Holds ((newFinishedPdu 3 5).run exConfStore) fun pdu s' =>
       view s' 5 = view exConfStore 5 ∧ (s'[pdu]?.map Cell.refs) = some [some 8, some 5] ∧
       Holds ((finSet pdu (.cond 4)).run s') fun _ s'' => view s'' 5 ≠ view s' 5 := by decide
@@ -902,12 +1917,79 @@ theorem C02_heap_tc_from_sp_header_writes_caller_header :
     `trans_mode`, `direction`, `seg_ctrl`) after the constructor does NOT change what is read through the PDU — the PDU
     reads its own copy (general reason: `C11_heap_frame` + `C11_heap_conf_bytefields_shared`, the caller's cell is not
     reachable from the PDU; here evaluated for all eight kinds, every scalar attribute and several values on `exConfStore`) -/
-theorem C11_heap_conf_scalar_write_invisible :
+example :
     ∀ k ∈ [PduKind.ack, .prompt, .keepAlive, .nak, .eof, .finished, .metadata, .fileData],
       Holds ((newPdu k 3 [] [7]).run exConfStore) fun pdu s' =>
         3 ∉ reach s' pdu ∧
         ∀ i ∈ [0, 1, 2, 3, 4], ∀ v ∈ [0, 1, 5],
           Holds ((confSetScalar 3 i v).run s') fun _ s'' => view s'' pdu = view s' pdu ∧ view s'' 3 = view (s'.set 3 ⟨.pduConfig, [some 0, some 1, some 2], [0, 1, 1, 0, 0].set i v⟩) 3 := by
   decide
+
+/-! ## the audit's counter-model, chained calls by proof, non-vacuity of the general (d) theorems -/
+
+/-- audit 3, finding 1: a "constructor" that makes the copy but builds the PDU on the CALLER's configuration -/
+def badPdu (k : PduKind) (conf : Addr) (scal : List Nat) : H Addr := do
+  let conf' ← copyConfWithDir conf (k.dir false)
+  let _ ← newPduHeader conf' 0 0 (scal.length + 1)
+  let h ← newPduHeader conf 0 0 (scal.length + 1)
+  let b ← new ⟨.directive, [some h], [k.code]⟩
+  new ⟨k.tag, [some b], scal⟩
+
+/-- it satisfied the OLD conclusion (a copy exists, a header refers to it, the caller's cell is unchanged) but is REJECTED by
+    the strengthened `C11_heap_conf_bytefields_shared`: from the returned PDU the path `pdu_header.pdu_conf` ends at the
+    caller's configuration (3), not at the new cell (`exConfStore.length` = 6), and the caller's cell is reachable -/
+example : Holds ((badPdu .keepAlive 3 [7]).run exConfStore) fun pdu s' =>
+    s'[exConfStore.length]? = some ⟨.pduConfig, [some 0, some 1, some 2], [0, 1, 1, 1, 0]⟩ ∧ s'[3]? = exConfStore[3]? ∧
+    followAttrs s' pdu ["pdu_header", "pdu_conf"] = some 3 ∧ followAttrs s' pdu ["pdu_header", "pdu_conf"] ≠ some exConfStore.length ∧
+    3 ∈ reach s' pdu ∧
+    Holds ((confSetScalar 3 2 0).run s') fun _ s'' => view s'' pdu ≠ view s' pdu := by decide
+
+/-- the hypotheses of the general (d) theorems hold for `exConfStore` (configuration at 3) … -/
+example : Closed exConfStore ∧ ConfFieldsAreLeaves exConfStore 3 ∧ ObjsAvoid exConfStore [] 3 ∧ ObjsAvoid exConfStore [some 5] 3 := by
+  refine ⟨by decide, by decide, fun o h => by simp at h, ?_⟩
+  intro o ho m hm
+  simp at ho
+  subst ho
+  -- everything reachable from the parameter object 5 is 5 or its (empty) list 4
+  have : ∀ m x, x ∈ reachN m exConfStore 5 → x = 5 ∨ x = 4 := by
+    intro m x hx
+    cases m with
+    | zero => simp [reachN] at hx; exact Or.inl hx
+    | succ m =>
+      simp only [reachN, List.mem_cons] at hx
+      rcases hx with h | h
+      · exact Or.inl h
+      · have h4 : Leaf exConfStore 4 := by decide
+        simp [exConfStore, Cell.kids] at h
+        exact Or.inr (reach_leaf h4 m x h)
+  rcases this m 3 hm with h | h <;> simp at h
+
+/-- … and the conclusion of `C11_heap_conf_bytefields_shared` for the real Finished constructor on it, evaluated -/
+example : Holds ((newFinishedPdu 3 5).run exConfStore) fun pdu s' =>
+    followAttrs s' pdu ["pdu_header", "pdu_conf"] = some 6 ∧ 3 ∉ reach s' pdu ∧
+    followAttrs s' pdu ["pdu_header", "pdu_conf", "source_entity_id"] = some 0 ∧ followAttrs s' pdu ["finished_params"] = some 5 := by
+  decide
+
+/-- CHAINED calls, by proof (no evaluation): on ANY closed store, build a telecommand, take its request ID, assign the
+    APID, take the space-packet view — every intermediate store is closed, all handles stay valid, the request ID still
+    reads what it read, and the packet view is separated from request ID and telecommand -/
+example (s0 : Store) (hc0 : Closed s0) (tc rid sp : Addr) (s1 s2 s3 : Store)
+    (h1 : (newPusTc 17 1 66 5 0 15 3).run s0 = some (tc, s1))
+    (h2 : (reqIdFromPusTc tc).run s1 = some (rid, s2))
+    (hl : ∀ hdr, headerOf s1 tc = some hdr → KidsAreLeaves s1 hdr)
+    (hl' : ∀ hdr, headerOf (runOps (tcSet tc) [.apid 7] s2) tc = some hdr → KidsAreLeaves (runOps (tcSet tc) [.apid 7] s2) hdr)
+    (h3 : (tcToSpacePacket tc).run (runOps (tcSet tc) [.apid 7] s2) = some (sp, s3)) :
+    Closed s3 ∧ rid < s3.length ∧ view (runOps (tcSet tc) [.apid 7] s2) rid = view s2 rid ∧
+    Disjoint (reach s3 sp) (reach s3 rid) ∧ Disjoint (reach s3 sp) (reach s3 tc) := by
+  obtain ⟨hTc, _, _, _, _, _, _, _, _, hReqTc, hSpTc, _, _⟩ := C11_heap_ops_keep_closed
+  obtain ⟨c1, _, r1⟩ := hTc 17 1 66 5 0 15 3 s0 hc0 tc s1 h1
+  obtain ⟨c2, l2, r2⟩ := hReqTc tc s1 c1 rid s2 h2
+  obtain ⟨c2', len2⟩ := (C02_heap_setters_keep_closed s2 c2 tc).1 [.apid 7]
+  obtain ⟨c3, l3, _⟩ := hSpTc tc _ c2' sp s3 h3
+  have hiso := C15_heap_reqid_isolated 6 s1 c1 tc r1 hl rid s2 h2 [.apid 7]
+  have hsp := C02_heap_space_packet_isolated 6 _ c2' tc (by rw [len2]; exact Nat.lt_of_lt_of_le r1 l2) hl' sp s3 h3 []
+  refine ⟨c3, Nat.lt_of_lt_of_le r2 (by rw [← len2]; exact l3), hiso.2, ?_, ?_⟩
+  · exact hsp.1 depth rid (by rw [len2]; exact r2)
+  · exact hsp.1 depth tc (by rw [len2]; exact Nat.lt_of_lt_of_le r1 l2)
 
 end SpVerif.Props.C11Heap
